@@ -23,7 +23,8 @@ EXTENDS Integers, Sequences, FiniteSets, TLC
 
 CONSTANTS CFGS,       \* sequence of scenario records (see write_mc in /verif/vlib/tlc.py); the
                       \* variable ci picks one of them in the initial state
-          KeepObs     \* record obs/script histories (FALSE in threaded configurations)
+          KeepObs,    \* record obs/script histories (FALSE in exhaustive threaded configurations)
+          NThr        \* number of member-thread processes (0 in sequential configurations)
 
 NoRef          == [n |-> 0, r |-> "none", s |-> 0, i |-> 0]
 Ref(n, r, s, i) == [n |-> n, r |-> r, s |-> s, i |-> i]
@@ -84,6 +85,9 @@ variables
   script = <<>>,
   ntop = 0,
   panicked = FALSE,
+  started = FALSE,                     \* threaded scenarios: setup finished, member threads may run
+  \* monitors for the threaded scenarios (C18/C19), maintained by the probe sink
+  mon = [greets |-> 0, ends |-> 0, errs |-> 0, open |-> 0, ndata |-> 0, seen |-> {}, bad |-> {}],
   done = FALSE;
 
 define {
@@ -111,7 +115,7 @@ define {
       [] k = "concat"  -> [sink |-> sink, utb |-> NoRef, i |-> 0, gotpull |-> FALSE]
       [] k = "combine" -> [sink |-> sink, tbs |-> [q \in 1..Len(Ups(n)) |-> NoRef],
                            nstart |-> Len(Ups(n)), ndata |-> Len(Ups(n)), nend |-> Len(Ups(n)),
-                           has |-> [q \in 1..Len(Ups(n)) |-> FALSE],
+                           has |-> [q \in 1..Len(Ups(n)) |-> FALSE], ver |-> 0,
                            vals |-> [q \in 1..Len(Ups(n)) |-> 0]]
       [] k \in {"flatten", "flatmap"} -> [sink |-> sink, otb |-> NoRef, itb |-> NoRef]
       [] k = "share"   -> [sink |-> sink]
@@ -186,6 +190,26 @@ define {
   IsIName(nm) == \E ix \in 1..Len(pi) : IName(ix) = nm
 
   ThOf(slf) == slf
+  IsThr == Len(CFG.thr) > 0
+  InstOfPid(p) == CHOOSE ix \in 1..Len(pi) : pi[ix].pup = p /\ \A q \in 1..(ix - 1) : pi[q].pup # p
+  \* values member instance ix has sent so far
+  SentVals(ix) == {10 * pi[ix].pup + q : q \in 1..pi[ix].sent}
+  \* monitor update when the probe sink receives message mm (threaded scenarios)
+  MonRecv(mn, mm) ==
+    IF mm.t = "H" THEN [mn EXCEPT !.greets = @ + 1]
+    ELSE IF mm.t = "D" THEN
+      [mn EXCEPT !.open = @ + 1, !.ndata = @ + 1, !.seen = @ \cup {mm.v},
+                 !.bad = @ \cup (IF mn.ends > 0 THEN {"data_after_end"} ELSE {})
+                           \cup (IF Kind(CFG.root) = "merge" /\ mm.v \in mn.seen THEN {"data_dup"} ELSE {})
+                           \cup (IF Kind(CFG.root) = "combine"
+                                    /\ \E q \in 1..Len(mm.v) : ~(mm.v[q] \in SentVals(InstOfPid(Node(Ups(CFG.root)[q]).pid)))
+                                 THEN {"foreign_value"} ELSE {})]
+    ELSE IF mm.t = "T" THEN
+      [mn EXCEPT !.ends = @ + 1,
+                 !.bad = @ \cup (IF mn.open > 0 THEN {"end_during_data"} ELSE {})
+                           \cup (IF mn.ends > 0 THEN {"end_twice"} ELSE {})]
+    ELSE IF mm.t = "E" THEN [mn EXCEPT !.errs = @ + 1]
+    ELSE mn
 }
 
 macro Panic() {
@@ -214,7 +238,7 @@ DStart:
     pi := Append(pi, [pup |-> Node(to.n).pid,
                       inst |-> Cardinality({q \in 1..Len(pi) : pi[q].pup = Node(to.n).pid}) + 1,
                       node |-> to.n, sink |-> m.tb, greeted |-> FALSE, pending |-> FALSE,
-                      ended |-> FALSE, stopped |-> FALSE, sent |-> 0, deferred |-> 0]);
+                      ended |-> FALSE, stopped |-> FALSE, stops |-> 0, sent |-> 0, deferred |-> 0]);
   } else if (to.r = "ptb") {
     lg := TRUE;
     obs := LogO(obs, Ev("c", ThOf(self), fr, IName(to.s), m.t, m.v));
@@ -241,8 +265,11 @@ DDisp:
     } else if (IsEnd(m)) {
       sk[to.s].ended := TRUE;
     };
+    if (IsThr) { mon := MonRecv(mon, m); };
 K1:
-    if (m.t \in {"H", "D"} /\ SinkLive(to.s) /\ sk[to.s].tb # NoRef) {
+    \* (threaded scenarios: the handler is a scheduling point, so deliveries can overlap)
+    if (IsThr /\ m.t = "D") { mon.open := mon.open - 1; };
+    if (~CFG.passive /\ m.t \in {"H", "D"} /\ SinkLive(to.s) /\ sk[to.s].tb # NoRef) {
       with (c \in SinkOpts(to.s, FALSE)) {
         script := LogS(script, <<"sink", KName(to.s), c>>);
         ch := c;
@@ -282,7 +309,7 @@ P3:
         ch := "dead";
       };
     } else if (IsEnd(m)) {
-      pi[to.s].stopped := TRUE;
+      pi[to.s] := [pi[to.s] EXCEPT !.stopped = TRUE, !.stops = @ + 1];
       ch := "x";
     } else {
       ch := "x";
@@ -532,24 +559,27 @@ TK4:
         goto Ret;
       } else if (m.t = "D") {
         \* take.rs:226-258
-tk_taken_ld:
+tk_taken_fu:
+        \* take.rs (fix F6): one atomic fetch_update claims a slot iff taken < max
         if (S(to).taken < Node(to.n).n) {
-tk_taken_fa:
           lv := S(to).taken + 1;
           st[to.n][to.s].taken := S(to).taken + 1;
 tk_data:
           call Deliver("S", S(to).sink, m);
+tk_max:
+          if (lv = Node(to.n).n) {
 tk_end_ld:
-          if (lv = Node(to.n).n /\ ~S(to).end) {
+            if (~S(to).end) {
 tk_end_st:
-            st[to.n][to.s].end := TRUE;
+              st[to.n][to.s].end := TRUE;
 tk_up_ld:
-            if (S(to).utb = NoRef) { Panic(); } else {
+              if (S(to).utb = NoRef) { Panic(); } else {
 tk_up_term:
-              call Deliver("S", S(to).utb, Msg("T"));
-            };
+                call Deliver("S", S(to).utb, Msg("T"));
+              };
 tk_sink_term:
-            call Deliver("S", S(to).sink, Msg("T"));
+              call Deliver("S", S(to).sink, Msg("T"));
+            };
           };
         };
 TK5:
@@ -676,15 +706,16 @@ MG4:
         \* merge.rs:196-212
 mg_ended_st:
         st[to.n][to.s].ended := TRUE;
-        jx := 1;
+        jx := IF to.i = 1 THEN 2 ELSE 1;
 mg_sib_ld:
+        \* one load per sibling j # i
         while (jx <= Len(Ups(to.n))) {
-          if (jx # to.i /\ S(to).tbs[jx] # NoRef) {
+          if (S(to).tbs[jx] # NoRef) {
 mg_sib_term:
             call Deliver("S", S(to).tbs[jx], Msg("T"));
           };
 MG5:
-          jx := jx + 1;
+          jx := IF jx + 1 = to.i THEN jx + 2 ELSE jx + 1;
         };
 mg_err:
         call Deliver("S", S(to).sink, m);
@@ -815,7 +846,20 @@ CB3:
       } else if (m.t = "D") {
         \* combine.rs:246-277
 cb_vals_ld:
-        if (~S(to).has[to.i]) {
+        \* combine.rs (fix F5): is this the member's first datum?  (only this member writes its slot)
+        jx := IF S(to).has[to.i] THEN 0 ELSE 1;
+cb_rcu_ld:
+        \* vals.rcu: load ...
+        snap := <<S(to).ver>>;
+cb_rcu_cas:
+        \* ... clone, set slot i, compare-and-swap; retry if another member got in between
+        if (S(to).ver # snap[1]) {
+          goto cb_rcu_ld;
+        } else {
+          st[to.n][to.s] := [S(to) EXCEPT !.has[to.i] = TRUE, !.vals[to.i] = m.v, !.ver = @ + 1];
+        };
+cb_ndata:
+        if (jx = 1) {
 cb_ndata_fs:
           lv := S(to).ndata - 1;
           st[to.n][to.s].ndata := S(to).ndata - 1;
@@ -823,16 +867,15 @@ cb_ndata_fs:
 cb_ndata_ld:
           lv := S(to).ndata;
         };
-cb_rcu:
-        \* rcu = load, clone+modify, compare-and-swap, retry: atomic replacement of slot i
-        st[to.n][to.s] := [S(to) EXCEPT !.has[to.i] = TRUE, !.vals[to.i] = m.v];
-cb_emit_ld:
+cb_emit:
         if (lv = 0) {
+cb_emit_ld:
           if (\E q \in 1..Len(Ups(to.n)) : ~S(to).has[q]) {
             Panic();   \* Option::unwrap on a None slot
           } else {
+            snap := S(to).vals;
 cb_data:
-            call Deliver("S", S(to).sink, MsgD(S(to).vals));
+            call Deliver("S", S(to).sink, MsgD(snap));
           };
         };
 CB4:
@@ -1245,7 +1288,7 @@ process (Main = 0)
 {
 M0:
   while (ntop < MaxTop /\ ~panicked) {
-    with (a \in {<<"", "stop">>} \cup EnabledTop) {
+    with (a \in (IF IsThr THEN {} ELSE {<<"", "stop">>}) \cup EnabledTop) {
       script := LogS(script, <<"top", a[1], a[2]>>);
       act := a;
     };
@@ -1285,14 +1328,47 @@ M4:
     };
   };
 MDone:
+  if (IsThr /\ ~panicked) {
+    \* setup (subscription, greetings) is over: the member threads run
+    obs := LogO(obs, Ev("top", 0, "", "", "threads", 0));
+    started := TRUE;
+MWait:
+    await \A t \in 1..Len(CFG.thr) : pc[t] = "Done";
+  };
+MFin:
   done := TRUE;
+}
+
+\* ---- member threads (C18/C19): thread t performs the t-th program of cfg.thr ------------------
+process (Thr \in 1..NThr)
+  variables tk = 0;
+{
+th_start:
+  await started /\ self <= Len(CFG.thr);
+TH1:
+  while (tk < CFG.thr[self].data /\ PupLive(InstOfPid(CFG.thr[self].pid))) {
+    \* a conformant member does not begin an emission once it was stopped
+    call Emit(InstOfPid(CFG.thr[self].pid));
+TH2:
+    tk := tk + 1;
+  };
+TH3:
+  if (CFG.thr[self].end # "none" /\ PupLive(InstOfPid(CFG.thr[self].pid))) {
+    if (CFG.thr[self].end = "E") {
+      call FailP(InstOfPid(CFG.thr[self].pid));
+    } else {
+      call EndP(InstOfPid(CFG.thr[self].pid));
+    };
+  };
+TH4:
+  skip;
 }
 
 } *)
 \* BEGIN TRANSLATION
 CONSTANT defaultInitValue
 VARIABLES pc, ci, st, nd, sk, pi, fi, tasks, now, obs, script, ntop, panicked, 
-          done, stack
+          started, mon, done, stack
 
 (* define statement *)
 CFG      == CFGS[ci]
@@ -1319,7 +1395,7 @@ InitSt(n, sink) ==
     [] k = "concat"  -> [sink |-> sink, utb |-> NoRef, i |-> 0, gotpull |-> FALSE]
     [] k = "combine" -> [sink |-> sink, tbs |-> [q \in 1..Len(Ups(n)) |-> NoRef],
                          nstart |-> Len(Ups(n)), ndata |-> Len(Ups(n)), nend |-> Len(Ups(n)),
-                         has |-> [q \in 1..Len(Ups(n)) |-> FALSE],
+                         has |-> [q \in 1..Len(Ups(n)) |-> FALSE], ver |-> 0,
                          vals |-> [q \in 1..Len(Ups(n)) |-> 0]]
     [] k \in {"flatten", "flatmap"} -> [sink |-> sink, otb |-> NoRef, itb |-> NoRef]
     [] k = "share"   -> [sink |-> sink]
@@ -1394,15 +1470,36 @@ IsKName(nm) == \E k \in 1..NSinks : KName(k) = nm
 IsIName(nm) == \E ix \in 1..Len(pi) : IName(ix) = nm
 
 ThOf(slf) == slf
+IsThr == Len(CFG.thr) > 0
+InstOfPid(p) == CHOOSE ix \in 1..Len(pi) : pi[ix].pup = p /\ \A q \in 1..(ix - 1) : pi[q].pup # p
+
+SentVals(ix) == {10 * pi[ix].pup + q : q \in 1..pi[ix].sent}
+
+MonRecv(mn, mm) ==
+  IF mm.t = "H" THEN [mn EXCEPT !.greets = @ + 1]
+  ELSE IF mm.t = "D" THEN
+    [mn EXCEPT !.open = @ + 1, !.ndata = @ + 1, !.seen = @ \cup {mm.v},
+               !.bad = @ \cup (IF mn.ends > 0 THEN {"data_after_end"} ELSE {})
+                         \cup (IF Kind(CFG.root) = "merge" /\ mm.v \in mn.seen THEN {"data_dup"} ELSE {})
+                         \cup (IF Kind(CFG.root) = "combine"
+                                  /\ \E q \in 1..Len(mm.v) : ~(mm.v[q] \in SentVals(InstOfPid(Node(Ups(CFG.root)[q]).pid)))
+                               THEN {"foreign_value"} ELSE {})]
+  ELSE IF mm.t = "T" THEN
+    [mn EXCEPT !.ends = @ + 1,
+               !.bad = @ \cup (IF mn.open > 0 THEN {"end_during_data"} ELSE {})
+                         \cup (IF mn.ends > 0 THEN {"end_twice"} ELSE {})]
+  ELSE IF mm.t = "E" THEN [mn EXCEPT !.errs = @ + 1]
+  ELSE mn
 
 VARIABLES fr, to, m, lg, sx, jx, ch, lv, snap, ka, ca, gx, ex, nx, fx, bx, bc, 
-          tx, ta, tc, ft, act, sj
+          tx, ta, tc, ft, act, sj, tk
 
 vars == << pc, ci, st, nd, sk, pi, fi, tasks, now, obs, script, ntop, 
-           panicked, done, stack, fr, to, m, lg, sx, jx, ch, lv, snap, ka, ca, 
-           gx, ex, nx, fx, bx, bc, tx, ta, tc, ft, act, sj >>
+           panicked, started, mon, done, stack, fr, to, m, lg, sx, jx, ch, lv, 
+           snap, ka, ca, gx, ex, nx, fx, bx, bc, tx, ta, tc, ft, act, sj, tk
+        >>
 
-ProcSet == {0}
+ProcSet == {0} \cup (1..NThr)
 
 Init == (* Global variables *)
         /\ ci \in 1..Len(CFGS)
@@ -1418,6 +1515,8 @@ Init == (* Global variables *)
         /\ script = <<>>
         /\ ntop = 0
         /\ panicked = FALSE
+        /\ started = FALSE
+        /\ mon = [greets |-> 0, ends |-> 0, errs |-> 0, open |-> 0, ndata |-> 0, seen |-> {}, bad |-> {}]
         /\ done = FALSE
         (* Procedure Deliver *)
         /\ fr = [ self \in ProcSet |-> defaultInitValue]
@@ -1452,8 +1551,11 @@ Init == (* Global variables *)
         (* Process Main *)
         /\ act = <<>>
         /\ sj = 0
+        (* Process Thr *)
+        /\ tk = [self \in 1..NThr |-> 0]
         /\ stack = [self \in ProcSet |-> << >>]
-        /\ pc = [self \in ProcSet |-> "M0"]
+        /\ pc = [self \in ProcSet |-> CASE self = 0 -> "M0"
+                                        [] self \in 1..NThr -> "th_start"]
 
 DStart(self) == /\ pc[self] = "DStart"
                 /\ IF to[self].r = "src" /\ IsPuppet(to[self].n)
@@ -1465,7 +1567,7 @@ DStart(self) == /\ pc[self] = "DStart"
                            /\ pi' = Append(pi, [pup |-> Node(to[self].n).pid,
                                                 inst |-> Cardinality({q \in 1..Len(pi) : pi[q].pup = Node(to[self].n).pid}) + 1,
                                                 node |-> to[self].n, sink |-> m[self].tb, greeted |-> FALSE, pending |-> FALSE,
-                                                ended |-> FALSE, stopped |-> FALSE, sent |-> 0, deferred |-> 0])
+                                                ended |-> FALSE, stopped |-> FALSE, stops |-> 0, sent |-> 0, deferred |-> 0])
                       ELSE /\ IF to[self].r = "ptb"
                                  THEN /\ lg' = [lg EXCEPT ![self] = TRUE]
                                       /\ obs' = LogO(obs, Ev("c", ThOf(self), fr[self], IName(to[self].s), m[self].t, m[self].v))
@@ -1484,9 +1586,9 @@ DStart(self) == /\ pc[self] = "DStart"
                            /\ UNCHANGED << pi, sx >>
                 /\ pc' = [pc EXCEPT ![self] = "DDisp"]
                 /\ UNCHANGED << ci, st, nd, sk, fi, tasks, now, script, ntop, 
-                                panicked, done, stack, fr, to, m, jx, ch, lv, 
-                                snap, ka, ca, gx, ex, nx, fx, bx, bc, tx, ta, 
-                                tc, ft, act, sj >>
+                                panicked, started, mon, done, stack, fr, to, m, 
+                                jx, ch, lv, snap, ka, ca, gx, ex, nx, fx, bx, 
+                                bc, tx, ta, tc, ft, act, sj, tk >>
 
 DDisp(self) == /\ pc[self] = "DDisp"
                /\ IF to[self].r = "K"
@@ -1498,6 +1600,10 @@ DDisp(self) == /\ pc[self] = "DDisp"
                                                       THEN /\ sk' = [sk EXCEPT ![to[self].s].ended = TRUE]
                                                       ELSE /\ TRUE
                                                            /\ sk' = sk
+                          /\ IF IsThr
+                                THEN /\ mon' = MonRecv(mon, m[self])
+                                ELSE /\ TRUE
+                                     /\ mon' = mon
                           /\ pc' = [pc EXCEPT ![self] = "K1"]
                           /\ UNCHANGED << st, nd, pi, fi, tasks, obs, script, 
                                           panicked, stack, fr, to, m, lg, sx, 
@@ -1521,7 +1627,7 @@ DDisp(self) == /\ pc[self] = "DDisp"
                                                                       /\ UNCHANGED script
                                                            /\ pi' = pi
                                                       ELSE /\ IF IsEnd(m[self])
-                                                                 THEN /\ pi' = [pi EXCEPT ![to[self].s].stopped = TRUE]
+                                                                 THEN /\ pi' = [pi EXCEPT ![to[self].s] = [pi[to[self].s] EXCEPT !.stopped = TRUE, !.stops = @ + 1]]
                                                                       /\ ch' = [ch EXCEPT ![self] = "x"]
                                                                  ELSE /\ ch' = [ch EXCEPT ![self] = "x"]
                                                                       /\ pi' = pi
@@ -2065,7 +2171,7 @@ DDisp(self) == /\ pc[self] = "DDisp"
                                                                                                                                                                               lv, 
                                                                                                                                                                               snap >>
                                                                                                                                                          ELSE /\ IF m[self].t = "D"
-                                                                                                                                                                    THEN /\ pc' = [pc EXCEPT ![self] = "tk_taken_ld"]
+                                                                                                                                                                    THEN /\ pc' = [pc EXCEPT ![self] = "tk_taken_fu"]
                                                                                                                                                                          /\ UNCHANGED << obs, 
                                                                                                                                                                                          panicked, 
                                                                                                                                                                                          stack, 
@@ -3153,7 +3259,7 @@ DDisp(self) == /\ pc[self] = "DDisp"
                                                                                                                                                                                                                                      sx, 
                                                                                                                                                                                                                                      ch >>
                                                                                                                                                                                                      ELSE /\ Assert(FALSE, 
-                                                                                                                                                                                                                    "Failure of assertion at line 1082, column 5.")
+                                                                                                                                                                                                                    "Failure of assertion at line 1125, column 5.")
                                                                                                                                                                                                           /\ pc' = [pc EXCEPT ![self] = "Ret"]
                                                                                                                                                                                                           /\ UNCHANGED << st, 
                                                                                                                                                                                                                           tasks, 
@@ -3174,11 +3280,16 @@ DDisp(self) == /\ pc[self] = "DDisp"
                                                                                  /\ fi' = fi
                                                            /\ sk' = sk
                                                 /\ pi' = pi
-               /\ UNCHANGED << ci, now, ntop, done, ka, ca, gx, ex, nx, fx, bx, 
-                               bc, tx, ta, tc, ft, act, sj >>
+                          /\ mon' = mon
+               /\ UNCHANGED << ci, now, ntop, started, done, ka, ca, gx, ex, 
+                               nx, fx, bx, bc, tx, ta, tc, ft, act, sj, tk >>
 
 K1(self) == /\ pc[self] = "K1"
-            /\ IF m[self].t \in {"H", "D"} /\ SinkLive(to[self].s) /\ sk[to[self].s].tb # NoRef
+            /\ IF IsThr /\ m[self].t = "D"
+                  THEN /\ mon' = [mon EXCEPT !.open = mon.open - 1]
+                  ELSE /\ TRUE
+                       /\ mon' = mon
+            /\ IF ~CFG.passive /\ m[self].t \in {"H", "D"} /\ SinkLive(to[self].s) /\ sk[to[self].s].tb # NoRef
                   THEN /\ \E c \in SinkOpts(to[self].s, FALSE):
                             /\ script' = LogS(script, <<"sink", KName(to[self].s), c>>)
                             /\ ch' = [ch EXCEPT ![self] = c]
@@ -3186,9 +3297,9 @@ K1(self) == /\ pc[self] = "K1"
                   ELSE /\ pc' = [pc EXCEPT ![self] = "K3"]
                        /\ UNCHANGED << script, ch >>
             /\ UNCHANGED << ci, st, nd, sk, pi, fi, tasks, now, obs, ntop, 
-                            panicked, done, stack, fr, to, m, lg, sx, jx, lv, 
-                            snap, ka, ca, gx, ex, nx, fx, bx, bc, tx, ta, tc, 
-                            ft, act, sj >>
+                            panicked, started, done, stack, fr, to, m, lg, sx, 
+                            jx, lv, snap, ka, ca, gx, ex, nx, fx, bx, bc, tx, 
+                            ta, tc, ft, act, sj, tk >>
 
 K2(self) == /\ pc[self] = "K2"
             /\ /\ ca' = [ca EXCEPT ![self] = ch[self]]
@@ -3200,16 +3311,16 @@ K2(self) == /\ pc[self] = "K2"
                                                     \o stack[self]]
             /\ pc' = [pc EXCEPT ![self] = "SA0"]
             /\ UNCHANGED << ci, st, nd, sk, pi, fi, tasks, now, obs, script, 
-                            ntop, panicked, done, fr, to, m, lg, sx, jx, ch, 
-                            lv, snap, gx, ex, nx, fx, bx, bc, tx, ta, tc, ft, 
-                            act, sj >>
+                            ntop, panicked, started, mon, done, fr, to, m, lg, 
+                            sx, jx, ch, lv, snap, gx, ex, nx, fx, bx, bc, tx, 
+                            ta, tc, ft, act, sj, tk >>
 
 K3(self) == /\ pc[self] = "K3"
             /\ pc' = [pc EXCEPT ![self] = "Ret"]
             /\ UNCHANGED << ci, st, nd, sk, pi, fi, tasks, now, obs, script, 
-                            ntop, panicked, done, stack, fr, to, m, lg, sx, jx, 
-                            ch, lv, snap, ka, ca, gx, ex, nx, fx, bx, bc, tx, 
-                            ta, tc, ft, act, sj >>
+                            ntop, panicked, started, mon, done, stack, fr, to, 
+                            m, lg, sx, jx, ch, lv, snap, ka, ca, gx, ex, nx, 
+                            fx, bx, bc, tx, ta, tc, ft, act, sj, tk >>
 
 P1(self) == /\ pc[self] = "P1"
             /\ IF ch[self] = "now"
@@ -3224,9 +3335,9 @@ P1(self) == /\ pc[self] = "P1"
                        /\ pc' = [pc EXCEPT ![self] = "P3"]
                        /\ UNCHANGED << stack, gx >>
             /\ UNCHANGED << ci, st, nd, sk, fi, tasks, now, obs, script, ntop, 
-                            panicked, done, fr, to, m, lg, sx, jx, ch, lv, 
-                            snap, ka, ca, ex, nx, fx, bx, bc, tx, ta, tc, ft, 
-                            act, sj >>
+                            panicked, started, mon, done, fr, to, m, lg, sx, 
+                            jx, ch, lv, snap, ka, ca, ex, nx, fx, bx, bc, tx, 
+                            ta, tc, ft, act, sj, tk >>
 
 P2(self) == /\ pc[self] = "P2"
             /\ /\ bx' = [bx EXCEPT ![self] = sx[self]]
@@ -3238,16 +3349,16 @@ P2(self) == /\ pc[self] = "P2"
             /\ bc' = [bc EXCEPT ![self] = ""]
             /\ pc' = [pc EXCEPT ![self] = "B0"]
             /\ UNCHANGED << ci, st, nd, sk, pi, fi, tasks, now, obs, script, 
-                            ntop, panicked, done, fr, to, m, lg, sx, jx, ch, 
-                            lv, snap, ka, ca, gx, ex, nx, fx, tx, ta, tc, ft, 
-                            act, sj >>
+                            ntop, panicked, started, mon, done, fr, to, m, lg, 
+                            sx, jx, ch, lv, snap, ka, ca, gx, ex, nx, fx, tx, 
+                            ta, tc, ft, act, sj, tk >>
 
 P3(self) == /\ pc[self] = "P3"
             /\ pc' = [pc EXCEPT ![self] = "Ret"]
             /\ UNCHANGED << ci, st, nd, sk, pi, fi, tasks, now, obs, script, 
-                            ntop, panicked, done, stack, fr, to, m, lg, sx, jx, 
-                            ch, lv, snap, ka, ca, gx, ex, nx, fx, bx, bc, tx, 
-                            ta, tc, ft, act, sj >>
+                            ntop, panicked, started, mon, done, stack, fr, to, 
+                            m, lg, sx, jx, ch, lv, snap, ka, ca, gx, ex, nx, 
+                            fx, bx, bc, tx, ta, tc, ft, act, sj, tk >>
 
 T1(self) == /\ pc[self] = "T1"
             /\ IF ch[self] = "data"
@@ -3285,15 +3396,16 @@ T1(self) == /\ pc[self] = "T1"
                                   /\ nx' = nx
                        /\ ex' = ex
             /\ UNCHANGED << ci, st, nd, sk, fi, tasks, now, script, ntop, 
-                            panicked, done, fr, to, m, lg, sx, jx, ch, lv, 
-                            snap, ka, ca, gx, bx, bc, tx, ta, tc, ft, act, sj >>
+                            panicked, started, mon, done, fr, to, m, lg, sx, 
+                            jx, ch, lv, snap, ka, ca, gx, bx, bc, tx, ta, tc, 
+                            ft, act, sj, tk >>
 
 T2(self) == /\ pc[self] = "T2"
             /\ pc' = [pc EXCEPT ![self] = "Ret"]
             /\ UNCHANGED << ci, st, nd, sk, pi, fi, tasks, now, obs, script, 
-                            ntop, panicked, done, stack, fr, to, m, lg, sx, jx, 
-                            ch, lv, snap, ka, ca, gx, ex, nx, fx, bx, bc, tx, 
-                            ta, tc, ft, act, sj >>
+                            ntop, panicked, started, mon, done, stack, fr, to, 
+                            m, lg, sx, jx, ch, lv, snap, ka, ca, gx, ex, nx, 
+                            fx, bx, bc, tx, ta, tc, ft, act, sj, tk >>
 
 FE1(self) == /\ pc[self] = "FE1"
              /\ /\ fr' = [fr EXCEPT ![self] = IF SinkKind(to[self].s) = "foreach" THEN KName(to[self].s) ELSE "S"]
@@ -3319,15 +3431,15 @@ FE1(self) == /\ pc[self] = "FE1"
              /\ snap' = [snap EXCEPT ![self] = <<>>]
              /\ pc' = [pc EXCEPT ![self] = "DStart"]
              /\ UNCHANGED << ci, st, nd, sk, pi, fi, tasks, now, obs, script, 
-                             ntop, panicked, done, ka, ca, gx, ex, nx, fx, bx, 
-                             bc, tx, ta, tc, ft, act, sj >>
+                             ntop, panicked, started, mon, done, ka, ca, gx, 
+                             ex, nx, fx, bx, bc, tx, ta, tc, ft, act, sj, tk >>
 
 FE2(self) == /\ pc[self] = "FE2"
              /\ pc' = [pc EXCEPT ![self] = "Ret"]
              /\ UNCHANGED << ci, st, nd, sk, pi, fi, tasks, now, obs, script, 
-                             ntop, panicked, done, stack, fr, to, m, lg, sx, 
-                             jx, ch, lv, snap, ka, ca, gx, ex, nx, fx, bx, bc, 
-                             tx, ta, tc, ft, act, sj >>
+                             ntop, panicked, started, mon, done, stack, fr, to, 
+                             m, lg, sx, jx, ch, lv, snap, ka, ca, gx, ex, nx, 
+                             fx, bx, bc, tx, ta, tc, ft, act, sj, tk >>
 
 FE3(self) == /\ pc[self] = "FE3"
              /\ IF sk[to[self].s].tb = NoRef
@@ -3361,15 +3473,15 @@ FE3(self) == /\ pc[self] = "FE3"
                         /\ pc' = [pc EXCEPT ![self] = "DStart"]
                         /\ UNCHANGED << obs, panicked >>
              /\ UNCHANGED << ci, st, nd, sk, pi, fi, tasks, now, script, ntop, 
-                             done, ka, ca, gx, ex, nx, fx, bx, bc, tx, ta, tc, 
-                             ft, act, sj >>
+                             started, mon, done, ka, ca, gx, ex, nx, fx, bx, 
+                             bc, tx, ta, tc, ft, act, sj, tk >>
 
 FE4(self) == /\ pc[self] = "FE4"
              /\ pc' = [pc EXCEPT ![self] = "Ret"]
              /\ UNCHANGED << ci, st, nd, sk, pi, fi, tasks, now, obs, script, 
-                             ntop, panicked, done, stack, fr, to, m, lg, sx, 
-                             jx, ch, lv, snap, ka, ca, gx, ex, nx, fx, bx, bc, 
-                             tx, ta, tc, ft, act, sj >>
+                             ntop, panicked, started, mon, done, stack, fr, to, 
+                             m, lg, sx, jx, ch, lv, snap, ka, ca, gx, ex, nx, 
+                             fx, bx, bc, tx, ta, tc, ft, act, sj, tk >>
 
 FR1(self) == /\ pc[self] = "FR1"
              /\ /\ fr' = [fr EXCEPT ![self] = "S"]
@@ -3395,15 +3507,15 @@ FR1(self) == /\ pc[self] = "FR1"
              /\ snap' = [snap EXCEPT ![self] = <<>>]
              /\ pc' = [pc EXCEPT ![self] = "DStart"]
              /\ UNCHANGED << ci, st, nd, sk, pi, fi, tasks, now, obs, script, 
-                             ntop, panicked, done, ka, ca, gx, ex, nx, fx, bx, 
-                             bc, tx, ta, tc, ft, act, sj >>
+                             ntop, panicked, started, mon, done, ka, ca, gx, 
+                             ex, nx, fx, bx, bc, tx, ta, tc, ft, act, sj, tk >>
 
 FR2(self) == /\ pc[self] = "FR2"
              /\ pc' = [pc EXCEPT ![self] = "Ret"]
              /\ UNCHANGED << ci, st, nd, sk, pi, fi, tasks, now, obs, script, 
-                             ntop, panicked, done, stack, fr, to, m, lg, sx, 
-                             jx, ch, lv, snap, ka, ca, gx, ex, nx, fx, bx, bc, 
-                             tx, ta, tc, ft, act, sj >>
+                             ntop, panicked, started, mon, done, stack, fr, to, 
+                             m, lg, sx, jx, ch, lv, snap, ka, ca, gx, ex, nx, 
+                             fx, bx, bc, tx, ta, tc, ft, act, sj, tk >>
 
 FR3(self) == /\ pc[self] = "FR3"
              /\ IF ~fi[to[self].s].inloop /\ ~fi[to[self].s].resdone
@@ -3412,9 +3524,9 @@ FR3(self) == /\ pc[self] = "FR3"
                    ELSE /\ pc' = [pc EXCEPT ![self] = "FR9"]
                         /\ fi' = fi
              /\ UNCHANGED << ci, st, nd, sk, pi, tasks, now, obs, script, ntop, 
-                             panicked, done, stack, fr, to, m, lg, sx, jx, ch, 
-                             lv, snap, ka, ca, gx, ex, nx, fx, bx, bc, tx, ta, 
-                             tc, ft, act, sj >>
+                             panicked, started, mon, done, stack, fr, to, m, 
+                             lg, sx, jx, ch, lv, snap, ka, ca, gx, ex, nx, fx, 
+                             bx, bc, tx, ta, tc, ft, act, sj, tk >>
 
 FR4(self) == /\ pc[self] = "FR4"
              /\ IF fi[to[self].s].gotpull /\ ~fi[to[self].s].completed
@@ -3433,9 +3545,9 @@ FR4(self) == /\ pc[self] = "FR4"
                    ELSE /\ pc' = [pc EXCEPT ![self] = "FR8"]
                         /\ UNCHANGED << fi, obs, lv >>
              /\ UNCHANGED << ci, st, nd, sk, pi, tasks, now, script, ntop, 
-                             panicked, done, stack, fr, to, m, lg, sx, jx, ch, 
-                             snap, ka, ca, gx, ex, nx, fx, bx, bc, tx, ta, tc, 
-                             ft, act, sj >>
+                             panicked, started, mon, done, stack, fr, to, m, 
+                             lg, sx, jx, ch, snap, ka, ca, gx, ex, nx, fx, bx, 
+                             bc, tx, ta, tc, ft, act, sj, tk >>
 
 FR5(self) == /\ pc[self] = "FR5"
              /\ IF fi[to[self].s].resdone
@@ -3484,38 +3596,38 @@ FR5(self) == /\ pc[self] = "FR5"
                         /\ snap' = [snap EXCEPT ![self] = <<>>]
                         /\ pc' = [pc EXCEPT ![self] = "DStart"]
              /\ UNCHANGED << ci, st, nd, sk, pi, fi, tasks, now, obs, script, 
-                             ntop, panicked, done, ka, ca, gx, ex, nx, fx, bx, 
-                             bc, tx, ta, tc, ft, act, sj >>
+                             ntop, panicked, started, mon, done, ka, ca, gx, 
+                             ex, nx, fx, bx, bc, tx, ta, tc, ft, act, sj, tk >>
 
 FR6(self) == /\ pc[self] = "FR6"
              /\ pc' = [pc EXCEPT ![self] = "FR8"]
              /\ UNCHANGED << ci, st, nd, sk, pi, fi, tasks, now, obs, script, 
-                             ntop, panicked, done, stack, fr, to, m, lg, sx, 
-                             jx, ch, lv, snap, ka, ca, gx, ex, nx, fx, bx, bc, 
-                             tx, ta, tc, ft, act, sj >>
+                             ntop, panicked, started, mon, done, stack, fr, to, 
+                             m, lg, sx, jx, ch, lv, snap, ka, ca, gx, ex, nx, 
+                             fx, bx, bc, tx, ta, tc, ft, act, sj, tk >>
 
 FR7(self) == /\ pc[self] = "FR7"
              /\ TRUE
              /\ pc' = [pc EXCEPT ![self] = "FR4"]
              /\ UNCHANGED << ci, st, nd, sk, pi, fi, tasks, now, obs, script, 
-                             ntop, panicked, done, stack, fr, to, m, lg, sx, 
-                             jx, ch, lv, snap, ka, ca, gx, ex, nx, fx, bx, bc, 
-                             tx, ta, tc, ft, act, sj >>
+                             ntop, panicked, started, mon, done, stack, fr, to, 
+                             m, lg, sx, jx, ch, lv, snap, ka, ca, gx, ex, nx, 
+                             fx, bx, bc, tx, ta, tc, ft, act, sj, tk >>
 
 FR8(self) == /\ pc[self] = "FR8"
              /\ fi' = [fi EXCEPT ![to[self].s].inloop = FALSE]
              /\ pc' = [pc EXCEPT ![self] = "FR9"]
              /\ UNCHANGED << ci, st, nd, sk, pi, tasks, now, obs, script, ntop, 
-                             panicked, done, stack, fr, to, m, lg, sx, jx, ch, 
-                             lv, snap, ka, ca, gx, ex, nx, fx, bx, bc, tx, ta, 
-                             tc, ft, act, sj >>
+                             panicked, started, mon, done, stack, fr, to, m, 
+                             lg, sx, jx, ch, lv, snap, ka, ca, gx, ex, nx, fx, 
+                             bx, bc, tx, ta, tc, ft, act, sj, tk >>
 
 FR9(self) == /\ pc[self] = "FR9"
              /\ pc' = [pc EXCEPT ![self] = "Ret"]
              /\ UNCHANGED << ci, st, nd, sk, pi, fi, tasks, now, obs, script, 
-                             ntop, panicked, done, stack, fr, to, m, lg, sx, 
-                             jx, ch, lv, snap, ka, ca, gx, ex, nx, fx, bx, bc, 
-                             tx, ta, tc, ft, act, sj >>
+                             ntop, panicked, started, mon, done, stack, fr, to, 
+                             m, lg, sx, jx, ch, lv, snap, ka, ca, gx, ex, nx, 
+                             fx, bx, bc, tx, ta, tc, ft, act, sj, tk >>
 
 MP1(self) == /\ pc[self] = "MP1"
              /\ /\ fr' = [fr EXCEPT ![self] = "S"]
@@ -3541,15 +3653,15 @@ MP1(self) == /\ pc[self] = "MP1"
              /\ snap' = [snap EXCEPT ![self] = <<>>]
              /\ pc' = [pc EXCEPT ![self] = "DStart"]
              /\ UNCHANGED << ci, st, nd, sk, pi, fi, tasks, now, obs, script, 
-                             ntop, panicked, done, ka, ca, gx, ex, nx, fx, bx, 
-                             bc, tx, ta, tc, ft, act, sj >>
+                             ntop, panicked, started, mon, done, ka, ca, gx, 
+                             ex, nx, fx, bx, bc, tx, ta, tc, ft, act, sj, tk >>
 
 MP2(self) == /\ pc[self] = "MP2"
              /\ pc' = [pc EXCEPT ![self] = "Ret"]
              /\ UNCHANGED << ci, st, nd, sk, pi, fi, tasks, now, obs, script, 
-                             ntop, panicked, done, stack, fr, to, m, lg, sx, 
-                             jx, ch, lv, snap, ka, ca, gx, ex, nx, fx, bx, bc, 
-                             tx, ta, tc, ft, act, sj >>
+                             ntop, panicked, started, mon, done, stack, fr, to, 
+                             m, lg, sx, jx, ch, lv, snap, ka, ca, gx, ex, nx, 
+                             fx, bx, bc, tx, ta, tc, ft, act, sj, tk >>
 
 MP3(self) == /\ pc[self] = "MP3"
              /\ /\ fr' = [fr EXCEPT ![self] = "S"]
@@ -3575,15 +3687,15 @@ MP3(self) == /\ pc[self] = "MP3"
              /\ snap' = [snap EXCEPT ![self] = <<>>]
              /\ pc' = [pc EXCEPT ![self] = "DStart"]
              /\ UNCHANGED << ci, st, nd, sk, pi, fi, tasks, now, obs, script, 
-                             ntop, panicked, done, ka, ca, gx, ex, nx, fx, bx, 
-                             bc, tx, ta, tc, ft, act, sj >>
+                             ntop, panicked, started, mon, done, ka, ca, gx, 
+                             ex, nx, fx, bx, bc, tx, ta, tc, ft, act, sj, tk >>
 
 MP4(self) == /\ pc[self] = "MP4"
              /\ pc' = [pc EXCEPT ![self] = "Ret"]
              /\ UNCHANGED << ci, st, nd, sk, pi, fi, tasks, now, obs, script, 
-                             ntop, panicked, done, stack, fr, to, m, lg, sx, 
-                             jx, ch, lv, snap, ka, ca, gx, ex, nx, fx, bx, bc, 
-                             tx, ta, tc, ft, act, sj >>
+                             ntop, panicked, started, mon, done, stack, fr, to, 
+                             m, lg, sx, jx, ch, lv, snap, ka, ca, gx, ex, nx, 
+                             fx, bx, bc, tx, ta, tc, ft, act, sj, tk >>
 
 MP5(self) == /\ pc[self] = "MP5"
              /\ /\ fr' = [fr EXCEPT ![self] = "S"]
@@ -3609,29 +3721,29 @@ MP5(self) == /\ pc[self] = "MP5"
              /\ snap' = [snap EXCEPT ![self] = <<>>]
              /\ pc' = [pc EXCEPT ![self] = "DStart"]
              /\ UNCHANGED << ci, st, nd, sk, pi, fi, tasks, now, obs, script, 
-                             ntop, panicked, done, ka, ca, gx, ex, nx, fx, bx, 
-                             bc, tx, ta, tc, ft, act, sj >>
+                             ntop, panicked, started, mon, done, ka, ca, gx, 
+                             ex, nx, fx, bx, bc, tx, ta, tc, ft, act, sj, tk >>
 
 MP6(self) == /\ pc[self] = "MP6"
              /\ pc' = [pc EXCEPT ![self] = "Ret"]
              /\ UNCHANGED << ci, st, nd, sk, pi, fi, tasks, now, obs, script, 
-                             ntop, panicked, done, stack, fr, to, m, lg, sx, 
-                             jx, ch, lv, snap, ka, ca, gx, ex, nx, fx, bx, bc, 
-                             tx, ta, tc, ft, act, sj >>
+                             ntop, panicked, started, mon, done, stack, fr, to, 
+                             m, lg, sx, jx, ch, lv, snap, ka, ca, gx, ex, nx, 
+                             fx, bx, bc, tx, ta, tc, ft, act, sj, tk >>
 
 MP7(self) == /\ pc[self] = "MP7"
              /\ pc' = [pc EXCEPT ![self] = "Ret"]
              /\ UNCHANGED << ci, st, nd, sk, pi, fi, tasks, now, obs, script, 
-                             ntop, panicked, done, stack, fr, to, m, lg, sx, 
-                             jx, ch, lv, snap, ka, ca, gx, ex, nx, fx, bx, bc, 
-                             tx, ta, tc, ft, act, sj >>
+                             ntop, panicked, started, mon, done, stack, fr, to, 
+                             m, lg, sx, jx, ch, lv, snap, ka, ca, gx, ex, nx, 
+                             fx, bx, bc, tx, ta, tc, ft, act, sj, tk >>
 
 MP8(self) == /\ pc[self] = "MP8"
              /\ pc' = [pc EXCEPT ![self] = "Ret"]
              /\ UNCHANGED << ci, st, nd, sk, pi, fi, tasks, now, obs, script, 
-                             ntop, panicked, done, stack, fr, to, m, lg, sx, 
-                             jx, ch, lv, snap, ka, ca, gx, ex, nx, fx, bx, bc, 
-                             tx, ta, tc, ft, act, sj >>
+                             ntop, panicked, started, mon, done, stack, fr, to, 
+                             m, lg, sx, jx, ch, lv, snap, ka, ca, gx, ex, nx, 
+                             fx, bx, bc, tx, ta, tc, ft, act, sj, tk >>
 
 FI1(self) == /\ pc[self] = "FI1"
              /\ /\ fr' = [fr EXCEPT ![self] = "S"]
@@ -3657,15 +3769,15 @@ FI1(self) == /\ pc[self] = "FI1"
              /\ snap' = [snap EXCEPT ![self] = <<>>]
              /\ pc' = [pc EXCEPT ![self] = "DStart"]
              /\ UNCHANGED << ci, st, nd, sk, pi, fi, tasks, now, obs, script, 
-                             ntop, panicked, done, ka, ca, gx, ex, nx, fx, bx, 
-                             bc, tx, ta, tc, ft, act, sj >>
+                             ntop, panicked, started, mon, done, ka, ca, gx, 
+                             ex, nx, fx, bx, bc, tx, ta, tc, ft, act, sj, tk >>
 
 FI2(self) == /\ pc[self] = "FI2"
              /\ pc' = [pc EXCEPT ![self] = "Ret"]
              /\ UNCHANGED << ci, st, nd, sk, pi, fi, tasks, now, obs, script, 
-                             ntop, panicked, done, stack, fr, to, m, lg, sx, 
-                             jx, ch, lv, snap, ka, ca, gx, ex, nx, fx, bx, bc, 
-                             tx, ta, tc, ft, act, sj >>
+                             ntop, panicked, started, mon, done, stack, fr, to, 
+                             m, lg, sx, jx, ch, lv, snap, ka, ca, gx, ex, nx, 
+                             fx, bx, bc, tx, ta, tc, ft, act, sj, tk >>
 
 FI3(self) == /\ pc[self] = "FI3"
              /\ /\ fr' = [fr EXCEPT ![self] = "S"]
@@ -3691,15 +3803,15 @@ FI3(self) == /\ pc[self] = "FI3"
              /\ snap' = [snap EXCEPT ![self] = <<>>]
              /\ pc' = [pc EXCEPT ![self] = "DStart"]
              /\ UNCHANGED << ci, st, nd, sk, pi, fi, tasks, now, obs, script, 
-                             ntop, panicked, done, ka, ca, gx, ex, nx, fx, bx, 
-                             bc, tx, ta, tc, ft, act, sj >>
+                             ntop, panicked, started, mon, done, ka, ca, gx, 
+                             ex, nx, fx, bx, bc, tx, ta, tc, ft, act, sj, tk >>
 
 FI4(self) == /\ pc[self] = "FI4"
              /\ pc' = [pc EXCEPT ![self] = "Ret"]
              /\ UNCHANGED << ci, st, nd, sk, pi, fi, tasks, now, obs, script, 
-                             ntop, panicked, done, stack, fr, to, m, lg, sx, 
-                             jx, ch, lv, snap, ka, ca, gx, ex, nx, fx, bx, bc, 
-                             tx, ta, tc, ft, act, sj >>
+                             ntop, panicked, started, mon, done, stack, fr, to, 
+                             m, lg, sx, jx, ch, lv, snap, ka, ca, gx, ex, nx, 
+                             fx, bx, bc, tx, ta, tc, ft, act, sj, tk >>
 
 FI5(self) == /\ pc[self] = "FI5"
              /\ IF PredInt(Node(to[self].n).p, m[self].v)
@@ -3757,29 +3869,29 @@ FI5(self) == /\ pc[self] = "FI5"
                                    /\ pc' = [pc EXCEPT ![self] = "DStart"]
                                    /\ UNCHANGED << obs, panicked >>
              /\ UNCHANGED << ci, st, nd, sk, pi, fi, tasks, now, script, ntop, 
-                             done, ka, ca, gx, ex, nx, fx, bx, bc, tx, ta, tc, 
-                             ft, act, sj >>
+                             started, mon, done, ka, ca, gx, ex, nx, fx, bx, 
+                             bc, tx, ta, tc, ft, act, sj, tk >>
 
 FI6(self) == /\ pc[self] = "FI6"
              /\ pc' = [pc EXCEPT ![self] = "Ret"]
              /\ UNCHANGED << ci, st, nd, sk, pi, fi, tasks, now, obs, script, 
-                             ntop, panicked, done, stack, fr, to, m, lg, sx, 
-                             jx, ch, lv, snap, ka, ca, gx, ex, nx, fx, bx, bc, 
-                             tx, ta, tc, ft, act, sj >>
+                             ntop, panicked, started, mon, done, stack, fr, to, 
+                             m, lg, sx, jx, ch, lv, snap, ka, ca, gx, ex, nx, 
+                             fx, bx, bc, tx, ta, tc, ft, act, sj, tk >>
 
 FI7(self) == /\ pc[self] = "FI7"
              /\ pc' = [pc EXCEPT ![self] = "Ret"]
              /\ UNCHANGED << ci, st, nd, sk, pi, fi, tasks, now, obs, script, 
-                             ntop, panicked, done, stack, fr, to, m, lg, sx, 
-                             jx, ch, lv, snap, ka, ca, gx, ex, nx, fx, bx, bc, 
-                             tx, ta, tc, ft, act, sj >>
+                             ntop, panicked, started, mon, done, stack, fr, to, 
+                             m, lg, sx, jx, ch, lv, snap, ka, ca, gx, ex, nx, 
+                             fx, bx, bc, tx, ta, tc, ft, act, sj, tk >>
 
 FI8(self) == /\ pc[self] = "FI8"
              /\ pc' = [pc EXCEPT ![self] = "Ret"]
              /\ UNCHANGED << ci, st, nd, sk, pi, fi, tasks, now, obs, script, 
-                             ntop, panicked, done, stack, fr, to, m, lg, sx, 
-                             jx, ch, lv, snap, ka, ca, gx, ex, nx, fx, bx, bc, 
-                             tx, ta, tc, ft, act, sj >>
+                             ntop, panicked, started, mon, done, stack, fr, to, 
+                             m, lg, sx, jx, ch, lv, snap, ka, ca, gx, ex, nx, 
+                             fx, bx, bc, tx, ta, tc, ft, act, sj, tk >>
 
 SC1(self) == /\ pc[self] = "SC1"
              /\ /\ fr' = [fr EXCEPT ![self] = "S"]
@@ -3805,15 +3917,15 @@ SC1(self) == /\ pc[self] = "SC1"
              /\ snap' = [snap EXCEPT ![self] = <<>>]
              /\ pc' = [pc EXCEPT ![self] = "DStart"]
              /\ UNCHANGED << ci, st, nd, sk, pi, fi, tasks, now, obs, script, 
-                             ntop, panicked, done, ka, ca, gx, ex, nx, fx, bx, 
-                             bc, tx, ta, tc, ft, act, sj >>
+                             ntop, panicked, started, mon, done, ka, ca, gx, 
+                             ex, nx, fx, bx, bc, tx, ta, tc, ft, act, sj, tk >>
 
 SC2(self) == /\ pc[self] = "SC2"
              /\ pc' = [pc EXCEPT ![self] = "Ret"]
              /\ UNCHANGED << ci, st, nd, sk, pi, fi, tasks, now, obs, script, 
-                             ntop, panicked, done, stack, fr, to, m, lg, sx, 
-                             jx, ch, lv, snap, ka, ca, gx, ex, nx, fx, bx, bc, 
-                             tx, ta, tc, ft, act, sj >>
+                             ntop, panicked, started, mon, done, stack, fr, to, 
+                             m, lg, sx, jx, ch, lv, snap, ka, ca, gx, ex, nx, 
+                             fx, bx, bc, tx, ta, tc, ft, act, sj, tk >>
 
 SC3(self) == /\ pc[self] = "SC3"
              /\ /\ fr' = [fr EXCEPT ![self] = "S"]
@@ -3839,15 +3951,15 @@ SC3(self) == /\ pc[self] = "SC3"
              /\ snap' = [snap EXCEPT ![self] = <<>>]
              /\ pc' = [pc EXCEPT ![self] = "DStart"]
              /\ UNCHANGED << ci, st, nd, sk, pi, fi, tasks, now, obs, script, 
-                             ntop, panicked, done, ka, ca, gx, ex, nx, fx, bx, 
-                             bc, tx, ta, tc, ft, act, sj >>
+                             ntop, panicked, started, mon, done, ka, ca, gx, 
+                             ex, nx, fx, bx, bc, tx, ta, tc, ft, act, sj, tk >>
 
 SC4(self) == /\ pc[self] = "SC4"
              /\ pc' = [pc EXCEPT ![self] = "Ret"]
              /\ UNCHANGED << ci, st, nd, sk, pi, fi, tasks, now, obs, script, 
-                             ntop, panicked, done, stack, fr, to, m, lg, sx, 
-                             jx, ch, lv, snap, ka, ca, gx, ex, nx, fx, bx, bc, 
-                             tx, ta, tc, ft, act, sj >>
+                             ntop, panicked, started, mon, done, stack, fr, to, 
+                             m, lg, sx, jx, ch, lv, snap, ka, ca, gx, ex, nx, 
+                             fx, bx, bc, tx, ta, tc, ft, act, sj, tk >>
 
 SC5(self) == /\ pc[self] = "SC5"
              /\ /\ fr' = [fr EXCEPT ![self] = "S"]
@@ -3873,29 +3985,29 @@ SC5(self) == /\ pc[self] = "SC5"
              /\ snap' = [snap EXCEPT ![self] = <<>>]
              /\ pc' = [pc EXCEPT ![self] = "DStart"]
              /\ UNCHANGED << ci, st, nd, sk, pi, fi, tasks, now, obs, script, 
-                             ntop, panicked, done, ka, ca, gx, ex, nx, fx, bx, 
-                             bc, tx, ta, tc, ft, act, sj >>
+                             ntop, panicked, started, mon, done, ka, ca, gx, 
+                             ex, nx, fx, bx, bc, tx, ta, tc, ft, act, sj, tk >>
 
 SC6(self) == /\ pc[self] = "SC6"
              /\ pc' = [pc EXCEPT ![self] = "Ret"]
              /\ UNCHANGED << ci, st, nd, sk, pi, fi, tasks, now, obs, script, 
-                             ntop, panicked, done, stack, fr, to, m, lg, sx, 
-                             jx, ch, lv, snap, ka, ca, gx, ex, nx, fx, bx, bc, 
-                             tx, ta, tc, ft, act, sj >>
+                             ntop, panicked, started, mon, done, stack, fr, to, 
+                             m, lg, sx, jx, ch, lv, snap, ka, ca, gx, ex, nx, 
+                             fx, bx, bc, tx, ta, tc, ft, act, sj, tk >>
 
 SC7(self) == /\ pc[self] = "SC7"
              /\ pc' = [pc EXCEPT ![self] = "Ret"]
              /\ UNCHANGED << ci, st, nd, sk, pi, fi, tasks, now, obs, script, 
-                             ntop, panicked, done, stack, fr, to, m, lg, sx, 
-                             jx, ch, lv, snap, ka, ca, gx, ex, nx, fx, bx, bc, 
-                             tx, ta, tc, ft, act, sj >>
+                             ntop, panicked, started, mon, done, stack, fr, to, 
+                             m, lg, sx, jx, ch, lv, snap, ka, ca, gx, ex, nx, 
+                             fx, bx, bc, tx, ta, tc, ft, act, sj, tk >>
 
 SC8(self) == /\ pc[self] = "SC8"
              /\ pc' = [pc EXCEPT ![self] = "Ret"]
              /\ UNCHANGED << ci, st, nd, sk, pi, fi, tasks, now, obs, script, 
-                             ntop, panicked, done, stack, fr, to, m, lg, sx, 
-                             jx, ch, lv, snap, ka, ca, gx, ex, nx, fx, bx, bc, 
-                             tx, ta, tc, ft, act, sj >>
+                             ntop, panicked, started, mon, done, stack, fr, to, 
+                             m, lg, sx, jx, ch, lv, snap, ka, ca, gx, ex, nx, 
+                             fx, bx, bc, tx, ta, tc, ft, act, sj, tk >>
 
 TK1(self) == /\ pc[self] = "TK1"
              /\ /\ fr' = [fr EXCEPT ![self] = "S"]
@@ -3921,15 +4033,15 @@ TK1(self) == /\ pc[self] = "TK1"
              /\ snap' = [snap EXCEPT ![self] = <<>>]
              /\ pc' = [pc EXCEPT ![self] = "DStart"]
              /\ UNCHANGED << ci, st, nd, sk, pi, fi, tasks, now, obs, script, 
-                             ntop, panicked, done, ka, ca, gx, ex, nx, fx, bx, 
-                             bc, tx, ta, tc, ft, act, sj >>
+                             ntop, panicked, started, mon, done, ka, ca, gx, 
+                             ex, nx, fx, bx, bc, tx, ta, tc, ft, act, sj, tk >>
 
 TK2(self) == /\ pc[self] = "TK2"
              /\ pc' = [pc EXCEPT ![self] = "Ret"]
              /\ UNCHANGED << ci, st, nd, sk, pi, fi, tasks, now, obs, script, 
-                             ntop, panicked, done, stack, fr, to, m, lg, sx, 
-                             jx, ch, lv, snap, ka, ca, gx, ex, nx, fx, bx, bc, 
-                             tx, ta, tc, ft, act, sj >>
+                             ntop, panicked, started, mon, done, stack, fr, to, 
+                             m, lg, sx, jx, ch, lv, snap, ka, ca, gx, ex, nx, 
+                             fx, bx, bc, tx, ta, tc, ft, act, sj, tk >>
 
 TK3(self) == /\ pc[self] = "TK3"
              /\ /\ fr' = [fr EXCEPT ![self] = "S"]
@@ -3955,41 +4067,34 @@ TK3(self) == /\ pc[self] = "TK3"
              /\ snap' = [snap EXCEPT ![self] = <<>>]
              /\ pc' = [pc EXCEPT ![self] = "DStart"]
              /\ UNCHANGED << ci, st, nd, sk, pi, fi, tasks, now, obs, script, 
-                             ntop, panicked, done, ka, ca, gx, ex, nx, fx, bx, 
-                             bc, tx, ta, tc, ft, act, sj >>
+                             ntop, panicked, started, mon, done, ka, ca, gx, 
+                             ex, nx, fx, bx, bc, tx, ta, tc, ft, act, sj, tk >>
 
 TK4(self) == /\ pc[self] = "TK4"
              /\ pc' = [pc EXCEPT ![self] = "Ret"]
              /\ UNCHANGED << ci, st, nd, sk, pi, fi, tasks, now, obs, script, 
-                             ntop, panicked, done, stack, fr, to, m, lg, sx, 
-                             jx, ch, lv, snap, ka, ca, gx, ex, nx, fx, bx, bc, 
-                             tx, ta, tc, ft, act, sj >>
+                             ntop, panicked, started, mon, done, stack, fr, to, 
+                             m, lg, sx, jx, ch, lv, snap, ka, ca, gx, ex, nx, 
+                             fx, bx, bc, tx, ta, tc, ft, act, sj, tk >>
 
-tk_taken_ld(self) == /\ pc[self] = "tk_taken_ld"
+tk_taken_fu(self) == /\ pc[self] = "tk_taken_fu"
                      /\ IF S(to[self]).taken < Node(to[self].n).n
-                           THEN /\ pc' = [pc EXCEPT ![self] = "tk_taken_fa"]
+                           THEN /\ lv' = [lv EXCEPT ![self] = S(to[self]).taken + 1]
+                                /\ st' = [st EXCEPT ![to[self].n][to[self].s].taken = S(to[self]).taken + 1]
+                                /\ pc' = [pc EXCEPT ![self] = "tk_data"]
                            ELSE /\ pc' = [pc EXCEPT ![self] = "TK5"]
-                     /\ UNCHANGED << ci, st, nd, sk, pi, fi, tasks, now, obs, 
-                                     script, ntop, panicked, done, stack, fr, 
-                                     to, m, lg, sx, jx, ch, lv, snap, ka, ca, 
-                                     gx, ex, nx, fx, bx, bc, tx, ta, tc, ft, 
-                                     act, sj >>
-
-tk_taken_fa(self) == /\ pc[self] = "tk_taken_fa"
-                     /\ lv' = [lv EXCEPT ![self] = S(to[self]).taken + 1]
-                     /\ st' = [st EXCEPT ![to[self].n][to[self].s].taken = S(to[self]).taken + 1]
-                     /\ pc' = [pc EXCEPT ![self] = "tk_data"]
+                                /\ UNCHANGED << st, lv >>
                      /\ UNCHANGED << ci, nd, sk, pi, fi, tasks, now, obs, 
-                                     script, ntop, panicked, done, stack, fr, 
-                                     to, m, lg, sx, jx, ch, snap, ka, ca, gx, 
-                                     ex, nx, fx, bx, bc, tx, ta, tc, ft, act, 
-                                     sj >>
+                                     script, ntop, panicked, started, mon, 
+                                     done, stack, fr, to, m, lg, sx, jx, ch, 
+                                     snap, ka, ca, gx, ex, nx, fx, bx, bc, tx, 
+                                     ta, tc, ft, act, sj, tk >>
 
 tk_data(self) == /\ pc[self] = "tk_data"
                  /\ /\ fr' = [fr EXCEPT ![self] = "S"]
                     /\ m' = [m EXCEPT ![self] = m[self]]
                     /\ stack' = [stack EXCEPT ![self] = << [ procedure |->  "Deliver",
-                                                             pc        |->  "tk_end_ld",
+                                                             pc        |->  "tk_max",
                                                              lg        |->  lg[self],
                                                              sx        |->  sx[self],
                                                              jx        |->  jx[self],
@@ -4009,25 +4114,38 @@ tk_data(self) == /\ pc[self] = "tk_data"
                  /\ snap' = [snap EXCEPT ![self] = <<>>]
                  /\ pc' = [pc EXCEPT ![self] = "DStart"]
                  /\ UNCHANGED << ci, st, nd, sk, pi, fi, tasks, now, obs, 
-                                 script, ntop, panicked, done, ka, ca, gx, ex, 
-                                 nx, fx, bx, bc, tx, ta, tc, ft, act, sj >>
+                                 script, ntop, panicked, started, mon, done, 
+                                 ka, ca, gx, ex, nx, fx, bx, bc, tx, ta, tc, 
+                                 ft, act, sj, tk >>
+
+tk_max(self) == /\ pc[self] = "tk_max"
+                /\ IF lv[self] = Node(to[self].n).n
+                      THEN /\ pc' = [pc EXCEPT ![self] = "tk_end_ld"]
+                      ELSE /\ pc' = [pc EXCEPT ![self] = "TK5"]
+                /\ UNCHANGED << ci, st, nd, sk, pi, fi, tasks, now, obs, 
+                                script, ntop, panicked, started, mon, done, 
+                                stack, fr, to, m, lg, sx, jx, ch, lv, snap, ka, 
+                                ca, gx, ex, nx, fx, bx, bc, tx, ta, tc, ft, 
+                                act, sj, tk >>
 
 tk_end_ld(self) == /\ pc[self] = "tk_end_ld"
-                   /\ IF lv[self] = Node(to[self].n).n /\ ~S(to[self]).end
+                   /\ IF ~S(to[self]).end
                          THEN /\ pc' = [pc EXCEPT ![self] = "tk_end_st"]
                          ELSE /\ pc' = [pc EXCEPT ![self] = "TK5"]
                    /\ UNCHANGED << ci, st, nd, sk, pi, fi, tasks, now, obs, 
-                                   script, ntop, panicked, done, stack, fr, to, 
-                                   m, lg, sx, jx, ch, lv, snap, ka, ca, gx, ex, 
-                                   nx, fx, bx, bc, tx, ta, tc, ft, act, sj >>
+                                   script, ntop, panicked, started, mon, done, 
+                                   stack, fr, to, m, lg, sx, jx, ch, lv, snap, 
+                                   ka, ca, gx, ex, nx, fx, bx, bc, tx, ta, tc, 
+                                   ft, act, sj, tk >>
 
 tk_end_st(self) == /\ pc[self] = "tk_end_st"
                    /\ st' = [st EXCEPT ![to[self].n][to[self].s].end = TRUE]
                    /\ pc' = [pc EXCEPT ![self] = "tk_up_ld"]
                    /\ UNCHANGED << ci, nd, sk, pi, fi, tasks, now, obs, script, 
-                                   ntop, panicked, done, stack, fr, to, m, lg, 
-                                   sx, jx, ch, lv, snap, ka, ca, gx, ex, nx, 
-                                   fx, bx, bc, tx, ta, tc, ft, act, sj >>
+                                   ntop, panicked, started, mon, done, stack, 
+                                   fr, to, m, lg, sx, jx, ch, lv, snap, ka, ca, 
+                                   gx, ex, nx, fx, bx, bc, tx, ta, tc, ft, act, 
+                                   sj, tk >>
 
 tk_up_ld(self) == /\ pc[self] = "tk_up_ld"
                   /\ IF S(to[self]).utb = NoRef
@@ -4038,9 +4156,9 @@ tk_up_ld(self) == /\ pc[self] = "tk_up_ld"
                         ELSE /\ pc' = [pc EXCEPT ![self] = "tk_up_term"]
                              /\ UNCHANGED << obs, panicked >>
                   /\ UNCHANGED << ci, st, nd, sk, pi, fi, tasks, now, script, 
-                                  ntop, done, stack, fr, to, m, lg, sx, jx, ch, 
-                                  lv, snap, ka, ca, gx, ex, nx, fx, bx, bc, tx, 
-                                  ta, tc, ft, act, sj >>
+                                  ntop, started, mon, done, stack, fr, to, m, 
+                                  lg, sx, jx, ch, lv, snap, ka, ca, gx, ex, nx, 
+                                  fx, bx, bc, tx, ta, tc, ft, act, sj, tk >>
 
 tk_up_term(self) == /\ pc[self] = "tk_up_term"
                     /\ /\ fr' = [fr EXCEPT ![self] = "S"]
@@ -4066,9 +4184,9 @@ tk_up_term(self) == /\ pc[self] = "tk_up_term"
                     /\ snap' = [snap EXCEPT ![self] = <<>>]
                     /\ pc' = [pc EXCEPT ![self] = "DStart"]
                     /\ UNCHANGED << ci, st, nd, sk, pi, fi, tasks, now, obs, 
-                                    script, ntop, panicked, done, ka, ca, gx, 
-                                    ex, nx, fx, bx, bc, tx, ta, tc, ft, act, 
-                                    sj >>
+                                    script, ntop, panicked, started, mon, done, 
+                                    ka, ca, gx, ex, nx, fx, bx, bc, tx, ta, tc, 
+                                    ft, act, sj, tk >>
 
 tk_sink_term(self) == /\ pc[self] = "tk_sink_term"
                       /\ /\ fr' = [fr EXCEPT ![self] = "S"]
@@ -4094,30 +4212,30 @@ tk_sink_term(self) == /\ pc[self] = "tk_sink_term"
                       /\ snap' = [snap EXCEPT ![self] = <<>>]
                       /\ pc' = [pc EXCEPT ![self] = "DStart"]
                       /\ UNCHANGED << ci, st, nd, sk, pi, fi, tasks, now, obs, 
-                                      script, ntop, panicked, done, ka, ca, gx, 
-                                      ex, nx, fx, bx, bc, tx, ta, tc, ft, act, 
-                                      sj >>
+                                      script, ntop, panicked, started, mon, 
+                                      done, ka, ca, gx, ex, nx, fx, bx, bc, tx, 
+                                      ta, tc, ft, act, sj, tk >>
 
 TK5(self) == /\ pc[self] = "TK5"
              /\ pc' = [pc EXCEPT ![self] = "Ret"]
              /\ UNCHANGED << ci, st, nd, sk, pi, fi, tasks, now, obs, script, 
-                             ntop, panicked, done, stack, fr, to, m, lg, sx, 
-                             jx, ch, lv, snap, ka, ca, gx, ex, nx, fx, bx, bc, 
-                             tx, ta, tc, ft, act, sj >>
+                             ntop, panicked, started, mon, done, stack, fr, to, 
+                             m, lg, sx, jx, ch, lv, snap, ka, ca, gx, ex, nx, 
+                             fx, bx, bc, tx, ta, tc, ft, act, sj, tk >>
 
 TK6(self) == /\ pc[self] = "TK6"
              /\ pc' = [pc EXCEPT ![self] = "Ret"]
              /\ UNCHANGED << ci, st, nd, sk, pi, fi, tasks, now, obs, script, 
-                             ntop, panicked, done, stack, fr, to, m, lg, sx, 
-                             jx, ch, lv, snap, ka, ca, gx, ex, nx, fx, bx, bc, 
-                             tx, ta, tc, ft, act, sj >>
+                             ntop, panicked, started, mon, done, stack, fr, to, 
+                             m, lg, sx, jx, ch, lv, snap, ka, ca, gx, ex, nx, 
+                             fx, bx, bc, tx, ta, tc, ft, act, sj, tk >>
 
 TK7(self) == /\ pc[self] = "TK7"
              /\ pc' = [pc EXCEPT ![self] = "Ret"]
              /\ UNCHANGED << ci, st, nd, sk, pi, fi, tasks, now, obs, script, 
-                             ntop, panicked, done, stack, fr, to, m, lg, sx, 
-                             jx, ch, lv, snap, ka, ca, gx, ex, nx, fx, bx, bc, 
-                             tx, ta, tc, ft, act, sj >>
+                             ntop, panicked, started, mon, done, stack, fr, to, 
+                             m, lg, sx, jx, ch, lv, snap, ka, ca, gx, ex, nx, 
+                             fx, bx, bc, tx, ta, tc, ft, act, sj, tk >>
 
 TK8(self) == /\ pc[self] = "TK8"
              /\ IF S(to[self]).utb = NoRef
@@ -4151,15 +4269,15 @@ TK8(self) == /\ pc[self] = "TK8"
                         /\ pc' = [pc EXCEPT ![self] = "DStart"]
                         /\ UNCHANGED << obs, panicked >>
              /\ UNCHANGED << ci, st, nd, sk, pi, fi, tasks, now, script, ntop, 
-                             done, ka, ca, gx, ex, nx, fx, bx, bc, tx, ta, tc, 
-                             ft, act, sj >>
+                             started, mon, done, ka, ca, gx, ex, nx, fx, bx, 
+                             bc, tx, ta, tc, ft, act, sj, tk >>
 
 TK9(self) == /\ pc[self] = "TK9"
              /\ pc' = [pc EXCEPT ![self] = "Ret"]
              /\ UNCHANGED << ci, st, nd, sk, pi, fi, tasks, now, obs, script, 
-                             ntop, panicked, done, stack, fr, to, m, lg, sx, 
-                             jx, ch, lv, snap, ka, ca, gx, ex, nx, fx, bx, bc, 
-                             tx, ta, tc, ft, act, sj >>
+                             ntop, panicked, started, mon, done, stack, fr, to, 
+                             m, lg, sx, jx, ch, lv, snap, ka, ca, gx, ex, nx, 
+                             fx, bx, bc, tx, ta, tc, ft, act, sj, tk >>
 
 SK1(self) == /\ pc[self] = "SK1"
              /\ /\ fr' = [fr EXCEPT ![self] = "S"]
@@ -4185,15 +4303,15 @@ SK1(self) == /\ pc[self] = "SK1"
              /\ snap' = [snap EXCEPT ![self] = <<>>]
              /\ pc' = [pc EXCEPT ![self] = "DStart"]
              /\ UNCHANGED << ci, st, nd, sk, pi, fi, tasks, now, obs, script, 
-                             ntop, panicked, done, ka, ca, gx, ex, nx, fx, bx, 
-                             bc, tx, ta, tc, ft, act, sj >>
+                             ntop, panicked, started, mon, done, ka, ca, gx, 
+                             ex, nx, fx, bx, bc, tx, ta, tc, ft, act, sj, tk >>
 
 SK2(self) == /\ pc[self] = "SK2"
              /\ pc' = [pc EXCEPT ![self] = "Ret"]
              /\ UNCHANGED << ci, st, nd, sk, pi, fi, tasks, now, obs, script, 
-                             ntop, panicked, done, stack, fr, to, m, lg, sx, 
-                             jx, ch, lv, snap, ka, ca, gx, ex, nx, fx, bx, bc, 
-                             tx, ta, tc, ft, act, sj >>
+                             ntop, panicked, started, mon, done, stack, fr, to, 
+                             m, lg, sx, jx, ch, lv, snap, ka, ca, gx, ex, nx, 
+                             fx, bx, bc, tx, ta, tc, ft, act, sj, tk >>
 
 SK3(self) == /\ pc[self] = "SK3"
              /\ /\ fr' = [fr EXCEPT ![self] = "S"]
@@ -4219,22 +4337,22 @@ SK3(self) == /\ pc[self] = "SK3"
              /\ snap' = [snap EXCEPT ![self] = <<>>]
              /\ pc' = [pc EXCEPT ![self] = "DStart"]
              /\ UNCHANGED << ci, st, nd, sk, pi, fi, tasks, now, obs, script, 
-                             ntop, panicked, done, ka, ca, gx, ex, nx, fx, bx, 
-                             bc, tx, ta, tc, ft, act, sj >>
+                             ntop, panicked, started, mon, done, ka, ca, gx, 
+                             ex, nx, fx, bx, bc, tx, ta, tc, ft, act, sj, tk >>
 
 SK4(self) == /\ pc[self] = "SK4"
              /\ pc' = [pc EXCEPT ![self] = "Ret"]
              /\ UNCHANGED << ci, st, nd, sk, pi, fi, tasks, now, obs, script, 
-                             ntop, panicked, done, stack, fr, to, m, lg, sx, 
-                             jx, ch, lv, snap, ka, ca, gx, ex, nx, fx, bx, bc, 
-                             tx, ta, tc, ft, act, sj >>
+                             ntop, panicked, started, mon, done, stack, fr, to, 
+                             m, lg, sx, jx, ch, lv, snap, ka, ca, gx, ex, nx, 
+                             fx, bx, bc, tx, ta, tc, ft, act, sj, tk >>
 
 SK6(self) == /\ pc[self] = "SK6"
              /\ pc' = [pc EXCEPT ![self] = "Ret"]
              /\ UNCHANGED << ci, st, nd, sk, pi, fi, tasks, now, obs, script, 
-                             ntop, panicked, done, stack, fr, to, m, lg, sx, 
-                             jx, ch, lv, snap, ka, ca, gx, ex, nx, fx, bx, bc, 
-                             tx, ta, tc, ft, act, sj >>
+                             ntop, panicked, started, mon, done, stack, fr, to, 
+                             m, lg, sx, jx, ch, lv, snap, ka, ca, gx, ex, nx, 
+                             fx, bx, bc, tx, ta, tc, ft, act, sj, tk >>
 
 SK5(self) == /\ pc[self] = "SK5"
              /\ IF S(to[self]).utb = NoRef
@@ -4268,22 +4386,22 @@ SK5(self) == /\ pc[self] = "SK5"
                         /\ pc' = [pc EXCEPT ![self] = "DStart"]
                         /\ UNCHANGED << obs, panicked >>
              /\ UNCHANGED << ci, st, nd, sk, pi, fi, tasks, now, script, ntop, 
-                             done, ka, ca, gx, ex, nx, fx, bx, bc, tx, ta, tc, 
-                             ft, act, sj >>
+                             started, mon, done, ka, ca, gx, ex, nx, fx, bx, 
+                             bc, tx, ta, tc, ft, act, sj, tk >>
 
 SK7(self) == /\ pc[self] = "SK7"
              /\ pc' = [pc EXCEPT ![self] = "Ret"]
              /\ UNCHANGED << ci, st, nd, sk, pi, fi, tasks, now, obs, script, 
-                             ntop, panicked, done, stack, fr, to, m, lg, sx, 
-                             jx, ch, lv, snap, ka, ca, gx, ex, nx, fx, bx, bc, 
-                             tx, ta, tc, ft, act, sj >>
+                             ntop, panicked, started, mon, done, stack, fr, to, 
+                             m, lg, sx, jx, ch, lv, snap, ka, ca, gx, ex, nx, 
+                             fx, bx, bc, tx, ta, tc, ft, act, sj, tk >>
 
 SK8(self) == /\ pc[self] = "SK8"
              /\ pc' = [pc EXCEPT ![self] = "Ret"]
              /\ UNCHANGED << ci, st, nd, sk, pi, fi, tasks, now, obs, script, 
-                             ntop, panicked, done, stack, fr, to, m, lg, sx, 
-                             jx, ch, lv, snap, ka, ca, gx, ex, nx, fx, bx, bc, 
-                             tx, ta, tc, ft, act, sj >>
+                             ntop, panicked, started, mon, done, stack, fr, to, 
+                             m, lg, sx, jx, ch, lv, snap, ka, ca, gx, ex, nx, 
+                             fx, bx, bc, tx, ta, tc, ft, act, sj, tk >>
 
 MG1(self) == /\ pc[self] = "MG1"
              /\ IF jx[self] <= Len(Ups(to[self].n)) /\ ~st[to[self].n][sx[self]].ended
@@ -4313,16 +4431,16 @@ MG1(self) == /\ pc[self] = "MG1"
                         /\ UNCHANGED << stack, fr, to, m, lg, sx, jx, ch, lv, 
                                         snap >>
              /\ UNCHANGED << ci, st, nd, sk, pi, fi, tasks, now, obs, script, 
-                             ntop, panicked, done, ka, ca, gx, ex, nx, fx, bx, 
-                             bc, tx, ta, tc, ft, act, sj >>
+                             ntop, panicked, started, mon, done, ka, ca, gx, 
+                             ex, nx, fx, bx, bc, tx, ta, tc, ft, act, sj, tk >>
 
 MG2(self) == /\ pc[self] = "MG2"
              /\ jx' = [jx EXCEPT ![self] = jx[self] + 1]
              /\ pc' = [pc EXCEPT ![self] = "MG1"]
              /\ UNCHANGED << ci, st, nd, sk, pi, fi, tasks, now, obs, script, 
-                             ntop, panicked, done, stack, fr, to, m, lg, sx, 
-                             ch, lv, snap, ka, ca, gx, ex, nx, fx, bx, bc, tx, 
-                             ta, tc, ft, act, sj >>
+                             ntop, panicked, started, mon, done, stack, fr, to, 
+                             m, lg, sx, ch, lv, snap, ka, ca, gx, ex, nx, fx, 
+                             bx, bc, tx, ta, tc, ft, act, sj, tk >>
 
 MG8(self) == /\ pc[self] = "MG8"
              /\ IF jx[self] <= Len(Ups(to[self].n))
@@ -4366,16 +4484,16 @@ MG8(self) == /\ pc[self] = "MG8"
                         /\ UNCHANGED << obs, panicked, stack, fr, to, m, lg, 
                                         sx, jx, ch, lv, snap >>
              /\ UNCHANGED << ci, st, nd, sk, pi, fi, tasks, now, script, ntop, 
-                             done, ka, ca, gx, ex, nx, fx, bx, bc, tx, ta, tc, 
-                             ft, act, sj >>
+                             started, mon, done, ka, ca, gx, ex, nx, fx, bx, 
+                             bc, tx, ta, tc, ft, act, sj, tk >>
 
 MG9(self) == /\ pc[self] = "MG9"
              /\ jx' = [jx EXCEPT ![self] = jx[self] + 1]
              /\ pc' = [pc EXCEPT ![self] = "MG8"]
              /\ UNCHANGED << ci, st, nd, sk, pi, fi, tasks, now, obs, script, 
-                             ntop, panicked, done, stack, fr, to, m, lg, sx, 
-                             ch, lv, snap, ka, ca, gx, ex, nx, fx, bx, bc, tx, 
-                             ta, tc, ft, act, sj >>
+                             ntop, panicked, started, mon, done, stack, fr, to, 
+                             m, lg, sx, ch, lv, snap, ka, ca, gx, ex, nx, fx, 
+                             bx, bc, tx, ta, tc, ft, act, sj, tk >>
 
 mg_late_ld(self) == /\ pc[self] = "mg_late_ld"
                     /\ IF S(to[self]).ended
@@ -4405,35 +4523,36 @@ mg_late_ld(self) == /\ pc[self] = "mg_late_ld"
                                /\ UNCHANGED << stack, fr, to, m, lg, sx, jx, 
                                                ch, lv, snap >>
                     /\ UNCHANGED << ci, st, nd, sk, pi, fi, tasks, now, obs, 
-                                    script, ntop, panicked, done, ka, ca, gx, 
-                                    ex, nx, fx, bx, bc, tx, ta, tc, ft, act, 
-                                    sj >>
+                                    script, ntop, panicked, started, mon, done, 
+                                    ka, ca, gx, ex, nx, fx, bx, bc, tx, ta, tc, 
+                                    ft, act, sj, tk >>
 
 mg_late_ret(self) == /\ pc[self] = "mg_late_ret"
                      /\ pc' = [pc EXCEPT ![self] = "Ret"]
                      /\ UNCHANGED << ci, st, nd, sk, pi, fi, tasks, now, obs, 
-                                     script, ntop, panicked, done, stack, fr, 
-                                     to, m, lg, sx, jx, ch, lv, snap, ka, ca, 
-                                     gx, ex, nx, fx, bx, bc, tx, ta, tc, ft, 
-                                     act, sj >>
+                                     script, ntop, panicked, started, mon, 
+                                     done, stack, fr, to, m, lg, sx, jx, ch, 
+                                     lv, snap, ka, ca, gx, ex, nx, fx, bx, bc, 
+                                     tx, ta, tc, ft, act, sj, tk >>
 
 mg_tb_st(self) == /\ pc[self] = "mg_tb_st"
                   /\ st' = [st EXCEPT ![to[self].n][to[self].s].tbs[to[self].i] = m[self].tb]
                   /\ pc' = [pc EXCEPT ![self] = "mg_start_fa"]
                   /\ UNCHANGED << ci, nd, sk, pi, fi, tasks, now, obs, script, 
-                                  ntop, panicked, done, stack, fr, to, m, lg, 
-                                  sx, jx, ch, lv, snap, ka, ca, gx, ex, nx, fx, 
-                                  bx, bc, tx, ta, tc, ft, act, sj >>
+                                  ntop, panicked, started, mon, done, stack, 
+                                  fr, to, m, lg, sx, jx, ch, lv, snap, ka, ca, 
+                                  gx, ex, nx, fx, bx, bc, tx, ta, tc, ft, act, 
+                                  sj, tk >>
 
 mg_start_fa(self) == /\ pc[self] = "mg_start_fa"
                      /\ lv' = [lv EXCEPT ![self] = S(to[self]).start + 1]
                      /\ st' = [st EXCEPT ![to[self].n][to[self].s].start = S(to[self]).start + 1]
                      /\ pc' = [pc EXCEPT ![self] = "mg_greet"]
                      /\ UNCHANGED << ci, nd, sk, pi, fi, tasks, now, obs, 
-                                     script, ntop, panicked, done, stack, fr, 
-                                     to, m, lg, sx, jx, ch, snap, ka, ca, gx, 
-                                     ex, nx, fx, bx, bc, tx, ta, tc, ft, act, 
-                                     sj >>
+                                     script, ntop, panicked, started, mon, 
+                                     done, stack, fr, to, m, lg, sx, jx, ch, 
+                                     snap, ka, ca, gx, ex, nx, fx, bx, bc, tx, 
+                                     ta, tc, ft, act, sj, tk >>
 
 mg_greet(self) == /\ pc[self] = "mg_greet"
                   /\ IF lv[self] = 1
@@ -4463,15 +4582,16 @@ mg_greet(self) == /\ pc[self] = "mg_greet"
                              /\ UNCHANGED << stack, fr, to, m, lg, sx, jx, ch, 
                                              lv, snap >>
                   /\ UNCHANGED << ci, st, nd, sk, pi, fi, tasks, now, obs, 
-                                  script, ntop, panicked, done, ka, ca, gx, ex, 
-                                  nx, fx, bx, bc, tx, ta, tc, ft, act, sj >>
+                                  script, ntop, panicked, started, mon, done, 
+                                  ka, ca, gx, ex, nx, fx, bx, bc, tx, ta, tc, 
+                                  ft, act, sj, tk >>
 
 MG3(self) == /\ pc[self] = "MG3"
              /\ pc' = [pc EXCEPT ![self] = "Ret"]
              /\ UNCHANGED << ci, st, nd, sk, pi, fi, tasks, now, obs, script, 
-                             ntop, panicked, done, stack, fr, to, m, lg, sx, 
-                             jx, ch, lv, snap, ka, ca, gx, ex, nx, fx, bx, bc, 
-                             tx, ta, tc, ft, act, sj >>
+                             ntop, panicked, started, mon, done, stack, fr, to, 
+                             m, lg, sx, jx, ch, lv, snap, ka, ca, gx, ex, nx, 
+                             fx, bx, bc, tx, ta, tc, ft, act, sj, tk >>
 
 mg_data(self) == /\ pc[self] = "mg_data"
                  /\ /\ fr' = [fr EXCEPT ![self] = "S"]
@@ -4497,44 +4617,46 @@ mg_data(self) == /\ pc[self] = "mg_data"
                  /\ snap' = [snap EXCEPT ![self] = <<>>]
                  /\ pc' = [pc EXCEPT ![self] = "DStart"]
                  /\ UNCHANGED << ci, st, nd, sk, pi, fi, tasks, now, obs, 
-                                 script, ntop, panicked, done, ka, ca, gx, ex, 
-                                 nx, fx, bx, bc, tx, ta, tc, ft, act, sj >>
+                                 script, ntop, panicked, started, mon, done, 
+                                 ka, ca, gx, ex, nx, fx, bx, bc, tx, ta, tc, 
+                                 ft, act, sj, tk >>
 
 MG4(self) == /\ pc[self] = "MG4"
              /\ pc' = [pc EXCEPT ![self] = "Ret"]
              /\ UNCHANGED << ci, st, nd, sk, pi, fi, tasks, now, obs, script, 
-                             ntop, panicked, done, stack, fr, to, m, lg, sx, 
-                             jx, ch, lv, snap, ka, ca, gx, ex, nx, fx, bx, bc, 
-                             tx, ta, tc, ft, act, sj >>
+                             ntop, panicked, started, mon, done, stack, fr, to, 
+                             m, lg, sx, jx, ch, lv, snap, ka, ca, gx, ex, nx, 
+                             fx, bx, bc, tx, ta, tc, ft, act, sj, tk >>
 
 mg_ended_st(self) == /\ pc[self] = "mg_ended_st"
                      /\ st' = [st EXCEPT ![to[self].n][to[self].s].ended = TRUE]
-                     /\ jx' = [jx EXCEPT ![self] = 1]
+                     /\ jx' = [jx EXCEPT ![self] = IF to[self].i = 1 THEN 2 ELSE 1]
                      /\ pc' = [pc EXCEPT ![self] = "mg_sib_ld"]
                      /\ UNCHANGED << ci, nd, sk, pi, fi, tasks, now, obs, 
-                                     script, ntop, panicked, done, stack, fr, 
-                                     to, m, lg, sx, ch, lv, snap, ka, ca, gx, 
-                                     ex, nx, fx, bx, bc, tx, ta, tc, ft, act, 
-                                     sj >>
+                                     script, ntop, panicked, started, mon, 
+                                     done, stack, fr, to, m, lg, sx, ch, lv, 
+                                     snap, ka, ca, gx, ex, nx, fx, bx, bc, tx, 
+                                     ta, tc, ft, act, sj, tk >>
 
 mg_sib_ld(self) == /\ pc[self] = "mg_sib_ld"
                    /\ IF jx[self] <= Len(Ups(to[self].n))
-                         THEN /\ IF jx[self] # to[self].i /\ S(to[self]).tbs[jx[self]] # NoRef
+                         THEN /\ IF S(to[self]).tbs[jx[self]] # NoRef
                                     THEN /\ pc' = [pc EXCEPT ![self] = "mg_sib_term"]
                                     ELSE /\ pc' = [pc EXCEPT ![self] = "MG5"]
                          ELSE /\ pc' = [pc EXCEPT ![self] = "mg_err"]
                    /\ UNCHANGED << ci, st, nd, sk, pi, fi, tasks, now, obs, 
-                                   script, ntop, panicked, done, stack, fr, to, 
-                                   m, lg, sx, jx, ch, lv, snap, ka, ca, gx, ex, 
-                                   nx, fx, bx, bc, tx, ta, tc, ft, act, sj >>
+                                   script, ntop, panicked, started, mon, done, 
+                                   stack, fr, to, m, lg, sx, jx, ch, lv, snap, 
+                                   ka, ca, gx, ex, nx, fx, bx, bc, tx, ta, tc, 
+                                   ft, act, sj, tk >>
 
 MG5(self) == /\ pc[self] = "MG5"
-             /\ jx' = [jx EXCEPT ![self] = jx[self] + 1]
+             /\ jx' = [jx EXCEPT ![self] = IF jx[self] + 1 = to[self].i THEN jx[self] + 2 ELSE jx[self] + 1]
              /\ pc' = [pc EXCEPT ![self] = "mg_sib_ld"]
              /\ UNCHANGED << ci, st, nd, sk, pi, fi, tasks, now, obs, script, 
-                             ntop, panicked, done, stack, fr, to, m, lg, sx, 
-                             ch, lv, snap, ka, ca, gx, ex, nx, fx, bx, bc, tx, 
-                             ta, tc, ft, act, sj >>
+                             ntop, panicked, started, mon, done, stack, fr, to, 
+                             m, lg, sx, ch, lv, snap, ka, ca, gx, ex, nx, fx, 
+                             bx, bc, tx, ta, tc, ft, act, sj, tk >>
 
 mg_sib_term(self) == /\ pc[self] = "mg_sib_term"
                      /\ /\ fr' = [fr EXCEPT ![self] = "S"]
@@ -4560,9 +4682,9 @@ mg_sib_term(self) == /\ pc[self] = "mg_sib_term"
                      /\ snap' = [snap EXCEPT ![self] = <<>>]
                      /\ pc' = [pc EXCEPT ![self] = "DStart"]
                      /\ UNCHANGED << ci, st, nd, sk, pi, fi, tasks, now, obs, 
-                                     script, ntop, panicked, done, ka, ca, gx, 
-                                     ex, nx, fx, bx, bc, tx, ta, tc, ft, act, 
-                                     sj >>
+                                     script, ntop, panicked, started, mon, 
+                                     done, ka, ca, gx, ex, nx, fx, bx, bc, tx, 
+                                     ta, tc, ft, act, sj, tk >>
 
 mg_err(self) == /\ pc[self] = "mg_err"
                 /\ /\ fr' = [fr EXCEPT ![self] = "S"]
@@ -4588,32 +4710,35 @@ mg_err(self) == /\ pc[self] = "mg_err"
                 /\ snap' = [snap EXCEPT ![self] = <<>>]
                 /\ pc' = [pc EXCEPT ![self] = "DStart"]
                 /\ UNCHANGED << ci, st, nd, sk, pi, fi, tasks, now, obs, 
-                                script, ntop, panicked, done, ka, ca, gx, ex, 
-                                nx, fx, bx, bc, tx, ta, tc, ft, act, sj >>
+                                script, ntop, panicked, started, mon, done, ka, 
+                                ca, gx, ex, nx, fx, bx, bc, tx, ta, tc, ft, 
+                                act, sj, tk >>
 
 MG6(self) == /\ pc[self] = "MG6"
              /\ pc' = [pc EXCEPT ![self] = "Ret"]
              /\ UNCHANGED << ci, st, nd, sk, pi, fi, tasks, now, obs, script, 
-                             ntop, panicked, done, stack, fr, to, m, lg, sx, 
-                             jx, ch, lv, snap, ka, ca, gx, ex, nx, fx, bx, bc, 
-                             tx, ta, tc, ft, act, sj >>
+                             ntop, panicked, started, mon, done, stack, fr, to, 
+                             m, lg, sx, jx, ch, lv, snap, ka, ca, gx, ex, nx, 
+                             fx, bx, bc, tx, ta, tc, ft, act, sj, tk >>
 
 mg_tb_clr(self) == /\ pc[self] = "mg_tb_clr"
                    /\ st' = [st EXCEPT ![to[self].n][to[self].s].tbs[to[self].i] = NoRef]
                    /\ pc' = [pc EXCEPT ![self] = "mg_end_fa"]
                    /\ UNCHANGED << ci, nd, sk, pi, fi, tasks, now, obs, script, 
-                                   ntop, panicked, done, stack, fr, to, m, lg, 
-                                   sx, jx, ch, lv, snap, ka, ca, gx, ex, nx, 
-                                   fx, bx, bc, tx, ta, tc, ft, act, sj >>
+                                   ntop, panicked, started, mon, done, stack, 
+                                   fr, to, m, lg, sx, jx, ch, lv, snap, ka, ca, 
+                                   gx, ex, nx, fx, bx, bc, tx, ta, tc, ft, act, 
+                                   sj, tk >>
 
 mg_end_fa(self) == /\ pc[self] = "mg_end_fa"
                    /\ lv' = [lv EXCEPT ![self] = S(to[self]).endc + 1]
                    /\ st' = [st EXCEPT ![to[self].n][to[self].s].endc = S(to[self]).endc + 1]
                    /\ pc' = [pc EXCEPT ![self] = "mg_term"]
                    /\ UNCHANGED << ci, nd, sk, pi, fi, tasks, now, obs, script, 
-                                   ntop, panicked, done, stack, fr, to, m, lg, 
-                                   sx, jx, ch, snap, ka, ca, gx, ex, nx, fx, 
-                                   bx, bc, tx, ta, tc, ft, act, sj >>
+                                   ntop, panicked, started, mon, done, stack, 
+                                   fr, to, m, lg, sx, jx, ch, snap, ka, ca, gx, 
+                                   ex, nx, fx, bx, bc, tx, ta, tc, ft, act, sj, 
+                                   tk >>
 
 mg_term(self) == /\ pc[self] = "mg_term"
                  /\ IF lv[self] = Len(Ups(to[self].n))
@@ -4643,15 +4768,16 @@ mg_term(self) == /\ pc[self] = "mg_term"
                             /\ UNCHANGED << stack, fr, to, m, lg, sx, jx, ch, 
                                             lv, snap >>
                  /\ UNCHANGED << ci, st, nd, sk, pi, fi, tasks, now, obs, 
-                                 script, ntop, panicked, done, ka, ca, gx, ex, 
-                                 nx, fx, bx, bc, tx, ta, tc, ft, act, sj >>
+                                 script, ntop, panicked, started, mon, done, 
+                                 ka, ca, gx, ex, nx, fx, bx, bc, tx, ta, tc, 
+                                 ft, act, sj, tk >>
 
 MG7(self) == /\ pc[self] = "MG7"
              /\ pc' = [pc EXCEPT ![self] = "Ret"]
              /\ UNCHANGED << ci, st, nd, sk, pi, fi, tasks, now, obs, script, 
-                             ntop, panicked, done, stack, fr, to, m, lg, sx, 
-                             jx, ch, lv, snap, ka, ca, gx, ex, nx, fx, bx, bc, 
-                             tx, ta, tc, ft, act, sj >>
+                             ntop, panicked, started, mon, done, stack, fr, to, 
+                             m, lg, sx, jx, ch, lv, snap, ka, ca, gx, ex, nx, 
+                             fx, bx, bc, tx, ta, tc, ft, act, sj, tk >>
 
 CCNext(self) == /\ pc[self] = "CCNext"
                 /\ IF st[to[self].n][sx[self]].i = Len(Ups(to[self].n))
@@ -4700,15 +4826,16 @@ CCNext(self) == /\ pc[self] = "CCNext"
                            /\ snap' = [snap EXCEPT ![self] = <<>>]
                            /\ pc' = [pc EXCEPT ![self] = "DStart"]
                 /\ UNCHANGED << ci, st, nd, sk, pi, fi, tasks, now, obs, 
-                                script, ntop, panicked, done, ka, ca, gx, ex, 
-                                nx, fx, bx, bc, tx, ta, tc, ft, act, sj >>
+                                script, ntop, panicked, started, mon, done, ka, 
+                                ca, gx, ex, nx, fx, bx, bc, tx, ta, tc, ft, 
+                                act, sj, tk >>
 
 CC7(self) == /\ pc[self] = "CC7"
              /\ pc' = [pc EXCEPT ![self] = "Ret"]
              /\ UNCHANGED << ci, st, nd, sk, pi, fi, tasks, now, obs, script, 
-                             ntop, panicked, done, stack, fr, to, m, lg, sx, 
-                             jx, ch, lv, snap, ka, ca, gx, ex, nx, fx, bx, bc, 
-                             tx, ta, tc, ft, act, sj >>
+                             ntop, panicked, started, mon, done, stack, fr, to, 
+                             m, lg, sx, jx, ch, lv, snap, ka, ca, gx, ex, nx, 
+                             fx, bx, bc, tx, ta, tc, ft, act, sj, tk >>
 
 CC1(self) == /\ pc[self] = "CC1"
              /\ IF S(to[self]).i = 0
@@ -4761,29 +4888,29 @@ CC1(self) == /\ pc[self] = "CC1"
                                    /\ UNCHANGED << stack, fr, to, m, lg, sx, 
                                                    jx, ch, lv, snap >>
              /\ UNCHANGED << ci, st, nd, sk, pi, fi, tasks, now, obs, script, 
-                             ntop, panicked, done, ka, ca, gx, ex, nx, fx, bx, 
-                             bc, tx, ta, tc, ft, act, sj >>
+                             ntop, panicked, started, mon, done, ka, ca, gx, 
+                             ex, nx, fx, bx, bc, tx, ta, tc, ft, act, sj, tk >>
 
 CC2(self) == /\ pc[self] = "CC2"
              /\ pc' = [pc EXCEPT ![self] = "Ret"]
              /\ UNCHANGED << ci, st, nd, sk, pi, fi, tasks, now, obs, script, 
-                             ntop, panicked, done, stack, fr, to, m, lg, sx, 
-                             jx, ch, lv, snap, ka, ca, gx, ex, nx, fx, bx, bc, 
-                             tx, ta, tc, ft, act, sj >>
+                             ntop, panicked, started, mon, done, stack, fr, to, 
+                             m, lg, sx, jx, ch, lv, snap, ka, ca, gx, ex, nx, 
+                             fx, bx, bc, tx, ta, tc, ft, act, sj, tk >>
 
 CC3(self) == /\ pc[self] = "CC3"
              /\ pc' = [pc EXCEPT ![self] = "Ret"]
              /\ UNCHANGED << ci, st, nd, sk, pi, fi, tasks, now, obs, script, 
-                             ntop, panicked, done, stack, fr, to, m, lg, sx, 
-                             jx, ch, lv, snap, ka, ca, gx, ex, nx, fx, bx, bc, 
-                             tx, ta, tc, ft, act, sj >>
+                             ntop, panicked, started, mon, done, stack, fr, to, 
+                             m, lg, sx, jx, ch, lv, snap, ka, ca, gx, ex, nx, 
+                             fx, bx, bc, tx, ta, tc, ft, act, sj, tk >>
 
 CC4(self) == /\ pc[self] = "CC4"
              /\ pc' = [pc EXCEPT ![self] = "Ret"]
              /\ UNCHANGED << ci, st, nd, sk, pi, fi, tasks, now, obs, script, 
-                             ntop, panicked, done, stack, fr, to, m, lg, sx, 
-                             jx, ch, lv, snap, ka, ca, gx, ex, nx, fx, bx, bc, 
-                             tx, ta, tc, ft, act, sj >>
+                             ntop, panicked, started, mon, done, stack, fr, to, 
+                             m, lg, sx, jx, ch, lv, snap, ka, ca, gx, ex, nx, 
+                             fx, bx, bc, tx, ta, tc, ft, act, sj, tk >>
 
 CC5(self) == /\ pc[self] = "CC5"
              /\ IF S(to[self]).utb = NoRef
@@ -4817,15 +4944,15 @@ CC5(self) == /\ pc[self] = "CC5"
                         /\ pc' = [pc EXCEPT ![self] = "DStart"]
                         /\ UNCHANGED << obs, panicked >>
              /\ UNCHANGED << ci, st, nd, sk, pi, fi, tasks, now, script, ntop, 
-                             done, ka, ca, gx, ex, nx, fx, bx, bc, tx, ta, tc, 
-                             ft, act, sj >>
+                             started, mon, done, ka, ca, gx, ex, nx, fx, bx, 
+                             bc, tx, ta, tc, ft, act, sj, tk >>
 
 CC6(self) == /\ pc[self] = "CC6"
              /\ pc' = [pc EXCEPT ![self] = "Ret"]
              /\ UNCHANGED << ci, st, nd, sk, pi, fi, tasks, now, obs, script, 
-                             ntop, panicked, done, stack, fr, to, m, lg, sx, 
-                             jx, ch, lv, snap, ka, ca, gx, ex, nx, fx, bx, bc, 
-                             tx, ta, tc, ft, act, sj >>
+                             ntop, panicked, started, mon, done, stack, fr, to, 
+                             m, lg, sx, jx, ch, lv, snap, ka, ca, gx, ex, nx, 
+                             fx, bx, bc, tx, ta, tc, ft, act, sj, tk >>
 
 CB1(self) == /\ pc[self] = "CB1"
              /\ IF jx[self] <= Len(Ups(to[self].n))
@@ -4855,34 +4982,35 @@ CB1(self) == /\ pc[self] = "CB1"
                         /\ UNCHANGED << stack, fr, to, m, lg, sx, jx, ch, lv, 
                                         snap >>
              /\ UNCHANGED << ci, st, nd, sk, pi, fi, tasks, now, obs, script, 
-                             ntop, panicked, done, ka, ca, gx, ex, nx, fx, bx, 
-                             bc, tx, ta, tc, ft, act, sj >>
+                             ntop, panicked, started, mon, done, ka, ca, gx, 
+                             ex, nx, fx, bx, bc, tx, ta, tc, ft, act, sj, tk >>
 
 CB2(self) == /\ pc[self] = "CB2"
              /\ jx' = [jx EXCEPT ![self] = jx[self] + 1]
              /\ pc' = [pc EXCEPT ![self] = "CB1"]
              /\ UNCHANGED << ci, st, nd, sk, pi, fi, tasks, now, obs, script, 
-                             ntop, panicked, done, stack, fr, to, m, lg, sx, 
-                             ch, lv, snap, ka, ca, gx, ex, nx, fx, bx, bc, tx, 
-                             ta, tc, ft, act, sj >>
+                             ntop, panicked, started, mon, done, stack, fr, to, 
+                             m, lg, sx, ch, lv, snap, ka, ca, gx, ex, nx, fx, 
+                             bx, bc, tx, ta, tc, ft, act, sj, tk >>
 
 cb_tb_st(self) == /\ pc[self] = "cb_tb_st"
                   /\ st' = [st EXCEPT ![to[self].n][to[self].s].tbs[to[self].i] = m[self].tb]
                   /\ pc' = [pc EXCEPT ![self] = "cb_start_fs"]
                   /\ UNCHANGED << ci, nd, sk, pi, fi, tasks, now, obs, script, 
-                                  ntop, panicked, done, stack, fr, to, m, lg, 
-                                  sx, jx, ch, lv, snap, ka, ca, gx, ex, nx, fx, 
-                                  bx, bc, tx, ta, tc, ft, act, sj >>
+                                  ntop, panicked, started, mon, done, stack, 
+                                  fr, to, m, lg, sx, jx, ch, lv, snap, ka, ca, 
+                                  gx, ex, nx, fx, bx, bc, tx, ta, tc, ft, act, 
+                                  sj, tk >>
 
 cb_start_fs(self) == /\ pc[self] = "cb_start_fs"
                      /\ lv' = [lv EXCEPT ![self] = S(to[self]).nstart - 1]
                      /\ st' = [st EXCEPT ![to[self].n][to[self].s].nstart = S(to[self]).nstart - 1]
                      /\ pc' = [pc EXCEPT ![self] = "cb_greet"]
                      /\ UNCHANGED << ci, nd, sk, pi, fi, tasks, now, obs, 
-                                     script, ntop, panicked, done, stack, fr, 
-                                     to, m, lg, sx, jx, ch, snap, ka, ca, gx, 
-                                     ex, nx, fx, bx, bc, tx, ta, tc, ft, act, 
-                                     sj >>
+                                     script, ntop, panicked, started, mon, 
+                                     done, stack, fr, to, m, lg, sx, jx, ch, 
+                                     snap, ka, ca, gx, ex, nx, fx, bx, bc, tx, 
+                                     ta, tc, ft, act, sj, tk >>
 
 cb_greet(self) == /\ pc[self] = "cb_greet"
                   /\ IF lv[self] = 0
@@ -4912,72 +5040,104 @@ cb_greet(self) == /\ pc[self] = "cb_greet"
                              /\ UNCHANGED << stack, fr, to, m, lg, sx, jx, ch, 
                                              lv, snap >>
                   /\ UNCHANGED << ci, st, nd, sk, pi, fi, tasks, now, obs, 
-                                  script, ntop, panicked, done, ka, ca, gx, ex, 
-                                  nx, fx, bx, bc, tx, ta, tc, ft, act, sj >>
+                                  script, ntop, panicked, started, mon, done, 
+                                  ka, ca, gx, ex, nx, fx, bx, bc, tx, ta, tc, 
+                                  ft, act, sj, tk >>
 
 CB3(self) == /\ pc[self] = "CB3"
              /\ pc' = [pc EXCEPT ![self] = "Ret"]
              /\ UNCHANGED << ci, st, nd, sk, pi, fi, tasks, now, obs, script, 
-                             ntop, panicked, done, stack, fr, to, m, lg, sx, 
-                             jx, ch, lv, snap, ka, ca, gx, ex, nx, fx, bx, bc, 
-                             tx, ta, tc, ft, act, sj >>
+                             ntop, panicked, started, mon, done, stack, fr, to, 
+                             m, lg, sx, jx, ch, lv, snap, ka, ca, gx, ex, nx, 
+                             fx, bx, bc, tx, ta, tc, ft, act, sj, tk >>
 
 cb_vals_ld(self) == /\ pc[self] = "cb_vals_ld"
-                    /\ IF ~S(to[self]).has[to[self].i]
-                          THEN /\ pc' = [pc EXCEPT ![self] = "cb_ndata_fs"]
-                          ELSE /\ pc' = [pc EXCEPT ![self] = "cb_ndata_ld"]
+                    /\ jx' = [jx EXCEPT ![self] = IF S(to[self]).has[to[self].i] THEN 0 ELSE 1]
+                    /\ pc' = [pc EXCEPT ![self] = "cb_rcu_ld"]
                     /\ UNCHANGED << ci, st, nd, sk, pi, fi, tasks, now, obs, 
-                                    script, ntop, panicked, done, stack, fr, 
-                                    to, m, lg, sx, jx, ch, lv, snap, ka, ca, 
-                                    gx, ex, nx, fx, bx, bc, tx, ta, tc, ft, 
-                                    act, sj >>
+                                    script, ntop, panicked, started, mon, done, 
+                                    stack, fr, to, m, lg, sx, ch, lv, snap, ka, 
+                                    ca, gx, ex, nx, fx, bx, bc, tx, ta, tc, ft, 
+                                    act, sj, tk >>
+
+cb_rcu_ld(self) == /\ pc[self] = "cb_rcu_ld"
+                   /\ snap' = [snap EXCEPT ![self] = <<S(to[self]).ver>>]
+                   /\ pc' = [pc EXCEPT ![self] = "cb_rcu_cas"]
+                   /\ UNCHANGED << ci, st, nd, sk, pi, fi, tasks, now, obs, 
+                                   script, ntop, panicked, started, mon, done, 
+                                   stack, fr, to, m, lg, sx, jx, ch, lv, ka, 
+                                   ca, gx, ex, nx, fx, bx, bc, tx, ta, tc, ft, 
+                                   act, sj, tk >>
+
+cb_rcu_cas(self) == /\ pc[self] = "cb_rcu_cas"
+                    /\ IF S(to[self]).ver # snap[self][1]
+                          THEN /\ pc' = [pc EXCEPT ![self] = "cb_rcu_ld"]
+                               /\ st' = st
+                          ELSE /\ st' = [st EXCEPT ![to[self].n][to[self].s] = [S(to[self]) EXCEPT !.has[to[self].i] = TRUE, !.vals[to[self].i] = m[self].v, !.ver = @ + 1]]
+                               /\ pc' = [pc EXCEPT ![self] = "cb_ndata"]
+                    /\ UNCHANGED << ci, nd, sk, pi, fi, tasks, now, obs, 
+                                    script, ntop, panicked, started, mon, done, 
+                                    stack, fr, to, m, lg, sx, jx, ch, lv, snap, 
+                                    ka, ca, gx, ex, nx, fx, bx, bc, tx, ta, tc, 
+                                    ft, act, sj, tk >>
+
+cb_ndata(self) == /\ pc[self] = "cb_ndata"
+                  /\ IF jx[self] = 1
+                        THEN /\ pc' = [pc EXCEPT ![self] = "cb_ndata_fs"]
+                        ELSE /\ pc' = [pc EXCEPT ![self] = "cb_ndata_ld"]
+                  /\ UNCHANGED << ci, st, nd, sk, pi, fi, tasks, now, obs, 
+                                  script, ntop, panicked, started, mon, done, 
+                                  stack, fr, to, m, lg, sx, jx, ch, lv, snap, 
+                                  ka, ca, gx, ex, nx, fx, bx, bc, tx, ta, tc, 
+                                  ft, act, sj, tk >>
 
 cb_ndata_fs(self) == /\ pc[self] = "cb_ndata_fs"
                      /\ lv' = [lv EXCEPT ![self] = S(to[self]).ndata - 1]
                      /\ st' = [st EXCEPT ![to[self].n][to[self].s].ndata = S(to[self]).ndata - 1]
-                     /\ pc' = [pc EXCEPT ![self] = "cb_rcu"]
+                     /\ pc' = [pc EXCEPT ![self] = "cb_emit"]
                      /\ UNCHANGED << ci, nd, sk, pi, fi, tasks, now, obs, 
-                                     script, ntop, panicked, done, stack, fr, 
-                                     to, m, lg, sx, jx, ch, snap, ka, ca, gx, 
-                                     ex, nx, fx, bx, bc, tx, ta, tc, ft, act, 
-                                     sj >>
+                                     script, ntop, panicked, started, mon, 
+                                     done, stack, fr, to, m, lg, sx, jx, ch, 
+                                     snap, ka, ca, gx, ex, nx, fx, bx, bc, tx, 
+                                     ta, tc, ft, act, sj, tk >>
 
 cb_ndata_ld(self) == /\ pc[self] = "cb_ndata_ld"
                      /\ lv' = [lv EXCEPT ![self] = S(to[self]).ndata]
-                     /\ pc' = [pc EXCEPT ![self] = "cb_rcu"]
+                     /\ pc' = [pc EXCEPT ![self] = "cb_emit"]
                      /\ UNCHANGED << ci, st, nd, sk, pi, fi, tasks, now, obs, 
-                                     script, ntop, panicked, done, stack, fr, 
-                                     to, m, lg, sx, jx, ch, snap, ka, ca, gx, 
-                                     ex, nx, fx, bx, bc, tx, ta, tc, ft, act, 
-                                     sj >>
+                                     script, ntop, panicked, started, mon, 
+                                     done, stack, fr, to, m, lg, sx, jx, ch, 
+                                     snap, ka, ca, gx, ex, nx, fx, bx, bc, tx, 
+                                     ta, tc, ft, act, sj, tk >>
 
-cb_rcu(self) == /\ pc[self] = "cb_rcu"
-                /\ st' = [st EXCEPT ![to[self].n][to[self].s] = [S(to[self]) EXCEPT !.has[to[self].i] = TRUE, !.vals[to[self].i] = m[self].v]]
-                /\ pc' = [pc EXCEPT ![self] = "cb_emit_ld"]
-                /\ UNCHANGED << ci, nd, sk, pi, fi, tasks, now, obs, script, 
-                                ntop, panicked, done, stack, fr, to, m, lg, sx, 
-                                jx, ch, lv, snap, ka, ca, gx, ex, nx, fx, bx, 
-                                bc, tx, ta, tc, ft, act, sj >>
+cb_emit(self) == /\ pc[self] = "cb_emit"
+                 /\ IF lv[self] = 0
+                       THEN /\ pc' = [pc EXCEPT ![self] = "cb_emit_ld"]
+                       ELSE /\ pc' = [pc EXCEPT ![self] = "CB4"]
+                 /\ UNCHANGED << ci, st, nd, sk, pi, fi, tasks, now, obs, 
+                                 script, ntop, panicked, started, mon, done, 
+                                 stack, fr, to, m, lg, sx, jx, ch, lv, snap, 
+                                 ka, ca, gx, ex, nx, fx, bx, bc, tx, ta, tc, 
+                                 ft, act, sj, tk >>
 
 cb_emit_ld(self) == /\ pc[self] = "cb_emit_ld"
-                    /\ IF lv[self] = 0
-                          THEN /\ IF \E q \in 1..Len(Ups(to[self].n)) : ~S(to[self]).has[q]
-                                     THEN /\ obs' = LogO(obs \o [q \in 1..OpenCount(obs, 1, 0) |-> RetEv(ThOf(self))],
-                                                         Ev("panic", ThOf(self), "", "", "", 0))
-                                          /\ panicked' = TRUE
-                                          /\ pc' = [pc EXCEPT ![self] = "Halt"]
-                                     ELSE /\ pc' = [pc EXCEPT ![self] = "cb_data"]
-                                          /\ UNCHANGED << obs, panicked >>
-                          ELSE /\ pc' = [pc EXCEPT ![self] = "CB4"]
+                    /\ IF \E q \in 1..Len(Ups(to[self].n)) : ~S(to[self]).has[q]
+                          THEN /\ obs' = LogO(obs \o [q \in 1..OpenCount(obs, 1, 0) |-> RetEv(ThOf(self))],
+                                              Ev("panic", ThOf(self), "", "", "", 0))
+                               /\ panicked' = TRUE
+                               /\ pc' = [pc EXCEPT ![self] = "Halt"]
+                               /\ snap' = snap
+                          ELSE /\ snap' = [snap EXCEPT ![self] = S(to[self]).vals]
+                               /\ pc' = [pc EXCEPT ![self] = "cb_data"]
                                /\ UNCHANGED << obs, panicked >>
                     /\ UNCHANGED << ci, st, nd, sk, pi, fi, tasks, now, script, 
-                                    ntop, done, stack, fr, to, m, lg, sx, jx, 
-                                    ch, lv, snap, ka, ca, gx, ex, nx, fx, bx, 
-                                    bc, tx, ta, tc, ft, act, sj >>
+                                    ntop, started, mon, done, stack, fr, to, m, 
+                                    lg, sx, jx, ch, lv, ka, ca, gx, ex, nx, fx, 
+                                    bx, bc, tx, ta, tc, ft, act, sj, tk >>
 
 cb_data(self) == /\ pc[self] = "cb_data"
                  /\ /\ fr' = [fr EXCEPT ![self] = "S"]
-                    /\ m' = [m EXCEPT ![self] = MsgD(S(to[self]).vals)]
+                    /\ m' = [m EXCEPT ![self] = MsgD(snap[self])]
                     /\ stack' = [stack EXCEPT ![self] = << [ procedure |->  "Deliver",
                                                              pc        |->  "CB4",
                                                              lg        |->  lg[self],
@@ -4999,24 +5159,26 @@ cb_data(self) == /\ pc[self] = "cb_data"
                  /\ snap' = [snap EXCEPT ![self] = <<>>]
                  /\ pc' = [pc EXCEPT ![self] = "DStart"]
                  /\ UNCHANGED << ci, st, nd, sk, pi, fi, tasks, now, obs, 
-                                 script, ntop, panicked, done, ka, ca, gx, ex, 
-                                 nx, fx, bx, bc, tx, ta, tc, ft, act, sj >>
+                                 script, ntop, panicked, started, mon, done, 
+                                 ka, ca, gx, ex, nx, fx, bx, bc, tx, ta, tc, 
+                                 ft, act, sj, tk >>
 
 CB4(self) == /\ pc[self] = "CB4"
              /\ pc' = [pc EXCEPT ![self] = "Ret"]
              /\ UNCHANGED << ci, st, nd, sk, pi, fi, tasks, now, obs, script, 
-                             ntop, panicked, done, stack, fr, to, m, lg, sx, 
-                             jx, ch, lv, snap, ka, ca, gx, ex, nx, fx, bx, bc, 
-                             tx, ta, tc, ft, act, sj >>
+                             ntop, panicked, started, mon, done, stack, fr, to, 
+                             m, lg, sx, jx, ch, lv, snap, ka, ca, gx, ex, nx, 
+                             fx, bx, bc, tx, ta, tc, ft, act, sj, tk >>
 
 cb_end_fs(self) == /\ pc[self] = "cb_end_fs"
                    /\ lv' = [lv EXCEPT ![self] = S(to[self]).nend - 1]
                    /\ st' = [st EXCEPT ![to[self].n][to[self].s].nend = S(to[self]).nend - 1]
                    /\ pc' = [pc EXCEPT ![self] = "cb_term"]
                    /\ UNCHANGED << ci, nd, sk, pi, fi, tasks, now, obs, script, 
-                                   ntop, panicked, done, stack, fr, to, m, lg, 
-                                   sx, jx, ch, snap, ka, ca, gx, ex, nx, fx, 
-                                   bx, bc, tx, ta, tc, ft, act, sj >>
+                                   ntop, panicked, started, mon, done, stack, 
+                                   fr, to, m, lg, sx, jx, ch, snap, ka, ca, gx, 
+                                   ex, nx, fx, bx, bc, tx, ta, tc, ft, act, sj, 
+                                   tk >>
 
 cb_term(self) == /\ pc[self] = "cb_term"
                  /\ IF lv[self] = 0
@@ -5046,15 +5208,16 @@ cb_term(self) == /\ pc[self] = "cb_term"
                             /\ UNCHANGED << stack, fr, to, m, lg, sx, jx, ch, 
                                             lv, snap >>
                  /\ UNCHANGED << ci, st, nd, sk, pi, fi, tasks, now, obs, 
-                                 script, ntop, panicked, done, ka, ca, gx, ex, 
-                                 nx, fx, bx, bc, tx, ta, tc, ft, act, sj >>
+                                 script, ntop, panicked, started, mon, done, 
+                                 ka, ca, gx, ex, nx, fx, bx, bc, tx, ta, tc, 
+                                 ft, act, sj, tk >>
 
 CB5(self) == /\ pc[self] = "CB5"
              /\ pc' = [pc EXCEPT ![self] = "Ret"]
              /\ UNCHANGED << ci, st, nd, sk, pi, fi, tasks, now, obs, script, 
-                             ntop, panicked, done, stack, fr, to, m, lg, sx, 
-                             jx, ch, lv, snap, ka, ca, gx, ex, nx, fx, bx, bc, 
-                             tx, ta, tc, ft, act, sj >>
+                             ntop, panicked, started, mon, done, stack, fr, to, 
+                             m, lg, sx, jx, ch, lv, snap, ka, ca, gx, ex, nx, 
+                             fx, bx, bc, tx, ta, tc, ft, act, sj, tk >>
 
 CB6(self) == /\ pc[self] = "CB6"
              /\ IF jx[self] <= Len(Ups(to[self].n))
@@ -5092,16 +5255,16 @@ CB6(self) == /\ pc[self] = "CB6"
                         /\ UNCHANGED << obs, panicked, stack, fr, to, m, lg, 
                                         sx, jx, ch, lv, snap >>
              /\ UNCHANGED << ci, st, nd, sk, pi, fi, tasks, now, script, ntop, 
-                             done, ka, ca, gx, ex, nx, fx, bx, bc, tx, ta, tc, 
-                             ft, act, sj >>
+                             started, mon, done, ka, ca, gx, ex, nx, fx, bx, 
+                             bc, tx, ta, tc, ft, act, sj, tk >>
 
 CB7(self) == /\ pc[self] = "CB7"
              /\ jx' = [jx EXCEPT ![self] = jx[self] + 1]
              /\ pc' = [pc EXCEPT ![self] = "CB6"]
              /\ UNCHANGED << ci, st, nd, sk, pi, fi, tasks, now, obs, script, 
-                             ntop, panicked, done, stack, fr, to, m, lg, sx, 
-                             ch, lv, snap, ka, ca, gx, ex, nx, fx, bx, bc, tx, 
-                             ta, tc, ft, act, sj >>
+                             ntop, panicked, started, mon, done, stack, fr, to, 
+                             m, lg, sx, ch, lv, snap, ka, ca, gx, ex, nx, fx, 
+                             bx, bc, tx, ta, tc, ft, act, sj, tk >>
 
 FL1(self) == /\ pc[self] = "FL1"
              /\ /\ fr' = [fr EXCEPT ![self] = "S"]
@@ -5127,15 +5290,15 @@ FL1(self) == /\ pc[self] = "FL1"
              /\ snap' = [snap EXCEPT ![self] = <<>>]
              /\ pc' = [pc EXCEPT ![self] = "DStart"]
              /\ UNCHANGED << ci, st, nd, sk, pi, fi, tasks, now, obs, script, 
-                             ntop, panicked, done, ka, ca, gx, ex, nx, fx, bx, 
-                             bc, tx, ta, tc, ft, act, sj >>
+                             ntop, panicked, started, mon, done, ka, ca, gx, 
+                             ex, nx, fx, bx, bc, tx, ta, tc, ft, act, sj, tk >>
 
 FL2(self) == /\ pc[self] = "FL2"
              /\ pc' = [pc EXCEPT ![self] = "Ret"]
              /\ UNCHANGED << ci, st, nd, sk, pi, fi, tasks, now, obs, script, 
-                             ntop, panicked, done, stack, fr, to, m, lg, sx, 
-                             jx, ch, lv, snap, ka, ca, gx, ex, nx, fx, bx, bc, 
-                             tx, ta, tc, ft, act, sj >>
+                             ntop, panicked, started, mon, done, stack, fr, to, 
+                             m, lg, sx, jx, ch, lv, snap, ka, ca, gx, ex, nx, 
+                             fx, bx, bc, tx, ta, tc, ft, act, sj, tk >>
 
 FL3(self) == /\ pc[self] = "FL3"
              /\ /\ fr' = [fr EXCEPT ![self] = "S"]
@@ -5161,15 +5324,15 @@ FL3(self) == /\ pc[self] = "FL3"
              /\ snap' = [snap EXCEPT ![self] = <<>>]
              /\ pc' = [pc EXCEPT ![self] = "DStart"]
              /\ UNCHANGED << ci, st, nd, sk, pi, fi, tasks, now, obs, script, 
-                             ntop, panicked, done, ka, ca, gx, ex, nx, fx, bx, 
-                             bc, tx, ta, tc, ft, act, sj >>
+                             ntop, panicked, started, mon, done, ka, ca, gx, 
+                             ex, nx, fx, bx, bc, tx, ta, tc, ft, act, sj, tk >>
 
 FL4(self) == /\ pc[self] = "FL4"
              /\ pc' = [pc EXCEPT ![self] = "Ret"]
              /\ UNCHANGED << ci, st, nd, sk, pi, fi, tasks, now, obs, script, 
-                             ntop, panicked, done, stack, fr, to, m, lg, sx, 
-                             jx, ch, lv, snap, ka, ca, gx, ex, nx, fx, bx, bc, 
-                             tx, ta, tc, ft, act, sj >>
+                             ntop, panicked, started, mon, done, stack, fr, to, 
+                             m, lg, sx, jx, ch, lv, snap, ka, ca, gx, ex, nx, 
+                             fx, bx, bc, tx, ta, tc, ft, act, sj, tk >>
 
 FL5a(self) == /\ pc[self] = "FL5a"
               /\ IF S(to[self]).itb # NoRef
@@ -5199,8 +5362,8 @@ FL5a(self) == /\ pc[self] = "FL5a"
                          /\ UNCHANGED << stack, fr, to, m, lg, sx, jx, ch, lv, 
                                          snap >>
               /\ UNCHANGED << ci, st, nd, sk, pi, fi, tasks, now, obs, script, 
-                              ntop, panicked, done, ka, ca, gx, ex, nx, fx, bx, 
-                              bc, tx, ta, tc, ft, act, sj >>
+                              ntop, panicked, started, mon, done, ka, ca, gx, 
+                              ex, nx, fx, bx, bc, tx, ta, tc, ft, act, sj, tk >>
 
 FL5(self) == /\ pc[self] = "FL5"
              /\ IF Kind(to[self].n) = "flatmap"
@@ -5251,15 +5414,15 @@ FL5(self) == /\ pc[self] = "FL5"
                         /\ pc' = [pc EXCEPT ![self] = "DStart"]
                         /\ fi' = fi
              /\ UNCHANGED << ci, st, nd, sk, pi, tasks, now, obs, script, ntop, 
-                             panicked, done, ka, ca, gx, ex, nx, fx, bx, bc, 
-                             tx, ta, tc, ft, act, sj >>
+                             panicked, started, mon, done, ka, ca, gx, ex, nx, 
+                             fx, bx, bc, tx, ta, tc, ft, act, sj, tk >>
 
 FL6(self) == /\ pc[self] = "FL6"
              /\ pc' = [pc EXCEPT ![self] = "Ret"]
              /\ UNCHANGED << ci, st, nd, sk, pi, fi, tasks, now, obs, script, 
-                             ntop, panicked, done, stack, fr, to, m, lg, sx, 
-                             jx, ch, lv, snap, ka, ca, gx, ex, nx, fx, bx, bc, 
-                             tx, ta, tc, ft, act, sj >>
+                             ntop, panicked, started, mon, done, stack, fr, to, 
+                             m, lg, sx, jx, ch, lv, snap, ka, ca, gx, ex, nx, 
+                             fx, bx, bc, tx, ta, tc, ft, act, sj, tk >>
 
 FL7(self) == /\ pc[self] = "FL7"
              /\ /\ fr' = [fr EXCEPT ![self] = "S"]
@@ -5285,22 +5448,22 @@ FL7(self) == /\ pc[self] = "FL7"
              /\ snap' = [snap EXCEPT ![self] = <<>>]
              /\ pc' = [pc EXCEPT ![self] = "DStart"]
              /\ UNCHANGED << ci, st, nd, sk, pi, fi, tasks, now, obs, script, 
-                             ntop, panicked, done, ka, ca, gx, ex, nx, fx, bx, 
-                             bc, tx, ta, tc, ft, act, sj >>
+                             ntop, panicked, started, mon, done, ka, ca, gx, 
+                             ex, nx, fx, bx, bc, tx, ta, tc, ft, act, sj, tk >>
 
 FL8(self) == /\ pc[self] = "FL8"
              /\ pc' = [pc EXCEPT ![self] = "Ret"]
              /\ UNCHANGED << ci, st, nd, sk, pi, fi, tasks, now, obs, script, 
-                             ntop, panicked, done, stack, fr, to, m, lg, sx, 
-                             jx, ch, lv, snap, ka, ca, gx, ex, nx, fx, bx, bc, 
-                             tx, ta, tc, ft, act, sj >>
+                             ntop, panicked, started, mon, done, stack, fr, to, 
+                             m, lg, sx, jx, ch, lv, snap, ka, ca, gx, ex, nx, 
+                             fx, bx, bc, tx, ta, tc, ft, act, sj, tk >>
 
 FL9(self) == /\ pc[self] = "FL9"
              /\ pc' = [pc EXCEPT ![self] = "Ret"]
              /\ UNCHANGED << ci, st, nd, sk, pi, fi, tasks, now, obs, script, 
-                             ntop, panicked, done, stack, fr, to, m, lg, sx, 
-                             jx, ch, lv, snap, ka, ca, gx, ex, nx, fx, bx, bc, 
-                             tx, ta, tc, ft, act, sj >>
+                             ntop, panicked, started, mon, done, stack, fr, to, 
+                             m, lg, sx, jx, ch, lv, snap, ka, ca, gx, ex, nx, 
+                             fx, bx, bc, tx, ta, tc, ft, act, sj, tk >>
 
 FL10(self) == /\ pc[self] = "FL10"
               /\ /\ fr' = [fr EXCEPT ![self] = "S"]
@@ -5326,22 +5489,22 @@ FL10(self) == /\ pc[self] = "FL10"
               /\ snap' = [snap EXCEPT ![self] = <<>>]
               /\ pc' = [pc EXCEPT ![self] = "DStart"]
               /\ UNCHANGED << ci, st, nd, sk, pi, fi, tasks, now, obs, script, 
-                              ntop, panicked, done, ka, ca, gx, ex, nx, fx, bx, 
-                              bc, tx, ta, tc, ft, act, sj >>
+                              ntop, panicked, started, mon, done, ka, ca, gx, 
+                              ex, nx, fx, bx, bc, tx, ta, tc, ft, act, sj, tk >>
 
 FL11(self) == /\ pc[self] = "FL11"
               /\ pc' = [pc EXCEPT ![self] = "Ret"]
               /\ UNCHANGED << ci, st, nd, sk, pi, fi, tasks, now, obs, script, 
-                              ntop, panicked, done, stack, fr, to, m, lg, sx, 
-                              jx, ch, lv, snap, ka, ca, gx, ex, nx, fx, bx, bc, 
-                              tx, ta, tc, ft, act, sj >>
+                              ntop, panicked, started, mon, done, stack, fr, 
+                              to, m, lg, sx, jx, ch, lv, snap, ka, ca, gx, ex, 
+                              nx, fx, bx, bc, tx, ta, tc, ft, act, sj, tk >>
 
 FL12(self) == /\ pc[self] = "FL12"
               /\ pc' = [pc EXCEPT ![self] = "Ret"]
               /\ UNCHANGED << ci, st, nd, sk, pi, fi, tasks, now, obs, script, 
-                              ntop, panicked, done, stack, fr, to, m, lg, sx, 
-                              jx, ch, lv, snap, ka, ca, gx, ex, nx, fx, bx, bc, 
-                              tx, ta, tc, ft, act, sj >>
+                              ntop, panicked, started, mon, done, stack, fr, 
+                              to, m, lg, sx, jx, ch, lv, snap, ka, ca, gx, ex, 
+                              nx, fx, bx, bc, tx, ta, tc, ft, act, sj, tk >>
 
 FL13(self) == /\ pc[self] = "FL13"
               /\ /\ fr' = [fr EXCEPT ![self] = "S"]
@@ -5367,22 +5530,22 @@ FL13(self) == /\ pc[self] = "FL13"
               /\ snap' = [snap EXCEPT ![self] = <<>>]
               /\ pc' = [pc EXCEPT ![self] = "DStart"]
               /\ UNCHANGED << ci, st, nd, sk, pi, fi, tasks, now, obs, script, 
-                              ntop, panicked, done, ka, ca, gx, ex, nx, fx, bx, 
-                              bc, tx, ta, tc, ft, act, sj >>
+                              ntop, panicked, started, mon, done, ka, ca, gx, 
+                              ex, nx, fx, bx, bc, tx, ta, tc, ft, act, sj, tk >>
 
 FL14(self) == /\ pc[self] = "FL14"
               /\ pc' = [pc EXCEPT ![self] = "Ret"]
               /\ UNCHANGED << ci, st, nd, sk, pi, fi, tasks, now, obs, script, 
-                              ntop, panicked, done, stack, fr, to, m, lg, sx, 
-                              jx, ch, lv, snap, ka, ca, gx, ex, nx, fx, bx, bc, 
-                              tx, ta, tc, ft, act, sj >>
+                              ntop, panicked, started, mon, done, stack, fr, 
+                              to, m, lg, sx, jx, ch, lv, snap, ka, ca, gx, ex, 
+                              nx, fx, bx, bc, tx, ta, tc, ft, act, sj, tk >>
 
 FL16(self) == /\ pc[self] = "FL16"
               /\ pc' = [pc EXCEPT ![self] = "Ret"]
               /\ UNCHANGED << ci, st, nd, sk, pi, fi, tasks, now, obs, script, 
-                              ntop, panicked, done, stack, fr, to, m, lg, sx, 
-                              jx, ch, lv, snap, ka, ca, gx, ex, nx, fx, bx, bc, 
-                              tx, ta, tc, ft, act, sj >>
+                              ntop, panicked, started, mon, done, stack, fr, 
+                              to, m, lg, sx, jx, ch, lv, snap, ka, ca, gx, ex, 
+                              nx, fx, bx, bc, tx, ta, tc, ft, act, sj, tk >>
 
 FL15(self) == /\ pc[self] = "FL15"
               /\ /\ fr' = [fr EXCEPT ![self] = "S"]
@@ -5408,15 +5571,15 @@ FL15(self) == /\ pc[self] = "FL15"
               /\ snap' = [snap EXCEPT ![self] = <<>>]
               /\ pc' = [pc EXCEPT ![self] = "DStart"]
               /\ UNCHANGED << ci, st, nd, sk, pi, fi, tasks, now, obs, script, 
-                              ntop, panicked, done, ka, ca, gx, ex, nx, fx, bx, 
-                              bc, tx, ta, tc, ft, act, sj >>
+                              ntop, panicked, started, mon, done, ka, ca, gx, 
+                              ex, nx, fx, bx, bc, tx, ta, tc, ft, act, sj, tk >>
 
 FL17(self) == /\ pc[self] = "FL17"
               /\ pc' = [pc EXCEPT ![self] = "Ret"]
               /\ UNCHANGED << ci, st, nd, sk, pi, fi, tasks, now, obs, script, 
-                              ntop, panicked, done, stack, fr, to, m, lg, sx, 
-                              jx, ch, lv, snap, ka, ca, gx, ex, nx, fx, bx, bc, 
-                              tx, ta, tc, ft, act, sj >>
+                              ntop, panicked, started, mon, done, stack, fr, 
+                              to, m, lg, sx, jx, ch, lv, snap, ka, ca, gx, ex, 
+                              nx, fx, bx, bc, tx, ta, tc, ft, act, sj, tk >>
 
 FL18(self) == /\ pc[self] = "FL18"
               /\ IF S(to[self]).otb # NoRef
@@ -5446,15 +5609,15 @@ FL18(self) == /\ pc[self] = "FL18"
                          /\ UNCHANGED << stack, fr, to, m, lg, sx, jx, ch, lv, 
                                          snap >>
               /\ UNCHANGED << ci, st, nd, sk, pi, fi, tasks, now, obs, script, 
-                              ntop, panicked, done, ka, ca, gx, ex, nx, fx, bx, 
-                              bc, tx, ta, tc, ft, act, sj >>
+                              ntop, panicked, started, mon, done, ka, ca, gx, 
+                              ex, nx, fx, bx, bc, tx, ta, tc, ft, act, sj, tk >>
 
 FL19(self) == /\ pc[self] = "FL19"
               /\ pc' = [pc EXCEPT ![self] = "Ret"]
               /\ UNCHANGED << ci, st, nd, sk, pi, fi, tasks, now, obs, script, 
-                              ntop, panicked, done, stack, fr, to, m, lg, sx, 
-                              jx, ch, lv, snap, ka, ca, gx, ex, nx, fx, bx, bc, 
-                              tx, ta, tc, ft, act, sj >>
+                              ntop, panicked, started, mon, done, stack, fr, 
+                              to, m, lg, sx, jx, ch, lv, snap, ka, ca, gx, ex, 
+                              nx, fx, bx, bc, tx, ta, tc, ft, act, sj, tk >>
 
 SH1(self) == /\ pc[self] = "SH1"
              /\ IF Len(nd[to[self].n].sinks) = 1
@@ -5503,15 +5666,15 @@ SH1(self) == /\ pc[self] = "SH1"
                         /\ snap' = [snap EXCEPT ![self] = <<>>]
                         /\ pc' = [pc EXCEPT ![self] = "DStart"]
              /\ UNCHANGED << ci, st, nd, sk, pi, fi, tasks, now, obs, script, 
-                             ntop, panicked, done, ka, ca, gx, ex, nx, fx, bx, 
-                             bc, tx, ta, tc, ft, act, sj >>
+                             ntop, panicked, started, mon, done, ka, ca, gx, 
+                             ex, nx, fx, bx, bc, tx, ta, tc, ft, act, sj, tk >>
 
 SH2(self) == /\ pc[self] = "SH2"
              /\ pc' = [pc EXCEPT ![self] = "Ret"]
              /\ UNCHANGED << ci, st, nd, sk, pi, fi, tasks, now, obs, script, 
-                             ntop, panicked, done, stack, fr, to, m, lg, sx, 
-                             jx, ch, lv, snap, ka, ca, gx, ex, nx, fx, bx, bc, 
-                             tx, ta, tc, ft, act, sj >>
+                             ntop, panicked, started, mon, done, stack, fr, to, 
+                             m, lg, sx, jx, ch, lv, snap, ka, ca, gx, ex, nx, 
+                             fx, bx, bc, tx, ta, tc, ft, act, sj, tk >>
 
 SH3(self) == /\ pc[self] = "SH3"
              /\ /\ fr' = [fr EXCEPT ![self] = "S"]
@@ -5537,15 +5700,15 @@ SH3(self) == /\ pc[self] = "SH3"
              /\ snap' = [snap EXCEPT ![self] = <<>>]
              /\ pc' = [pc EXCEPT ![self] = "DStart"]
              /\ UNCHANGED << ci, st, nd, sk, pi, fi, tasks, now, obs, script, 
-                             ntop, panicked, done, ka, ca, gx, ex, nx, fx, bx, 
-                             bc, tx, ta, tc, ft, act, sj >>
+                             ntop, panicked, started, mon, done, ka, ca, gx, 
+                             ex, nx, fx, bx, bc, tx, ta, tc, ft, act, sj, tk >>
 
 SH4(self) == /\ pc[self] = "SH4"
              /\ pc' = [pc EXCEPT ![self] = "Ret"]
              /\ UNCHANGED << ci, st, nd, sk, pi, fi, tasks, now, obs, script, 
-                             ntop, panicked, done, stack, fr, to, m, lg, sx, 
-                             jx, ch, lv, snap, ka, ca, gx, ex, nx, fx, bx, bc, 
-                             tx, ta, tc, ft, act, sj >>
+                             ntop, panicked, started, mon, done, stack, fr, to, 
+                             m, lg, sx, jx, ch, lv, snap, ka, ca, gx, ex, nx, 
+                             fx, bx, bc, tx, ta, tc, ft, act, sj, tk >>
 
 SH5(self) == /\ pc[self] = "SH5"
              /\ IF jx[self] <= Len(snap[self])
@@ -5580,30 +5743,30 @@ SH5(self) == /\ pc[self] = "SH5"
                         /\ UNCHANGED << stack, fr, to, m, lg, sx, jx, ch, lv, 
                                         snap >>
              /\ UNCHANGED << ci, st, sk, pi, fi, tasks, now, obs, script, ntop, 
-                             panicked, done, ka, ca, gx, ex, nx, fx, bx, bc, 
-                             tx, ta, tc, ft, act, sj >>
+                             panicked, started, mon, done, ka, ca, gx, ex, nx, 
+                             fx, bx, bc, tx, ta, tc, ft, act, sj, tk >>
 
 SH6(self) == /\ pc[self] = "SH6"
              /\ jx' = [jx EXCEPT ![self] = jx[self] + 1]
              /\ pc' = [pc EXCEPT ![self] = "SH5"]
              /\ UNCHANGED << ci, st, nd, sk, pi, fi, tasks, now, obs, script, 
-                             ntop, panicked, done, stack, fr, to, m, lg, sx, 
-                             ch, lv, snap, ka, ca, gx, ex, nx, fx, bx, bc, tx, 
-                             ta, tc, ft, act, sj >>
+                             ntop, panicked, started, mon, done, stack, fr, to, 
+                             m, lg, sx, ch, lv, snap, ka, ca, gx, ex, nx, fx, 
+                             bx, bc, tx, ta, tc, ft, act, sj, tk >>
 
 SH7(self) == /\ pc[self] = "SH7"
              /\ pc' = [pc EXCEPT ![self] = "Ret"]
              /\ UNCHANGED << ci, st, nd, sk, pi, fi, tasks, now, obs, script, 
-                             ntop, panicked, done, stack, fr, to, m, lg, sx, 
-                             jx, ch, lv, snap, ka, ca, gx, ex, nx, fx, bx, bc, 
-                             tx, ta, tc, ft, act, sj >>
+                             ntop, panicked, started, mon, done, stack, fr, to, 
+                             m, lg, sx, jx, ch, lv, snap, ka, ca, gx, ex, nx, 
+                             fx, bx, bc, tx, ta, tc, ft, act, sj, tk >>
 
 SH8(self) == /\ pc[self] = "SH8"
              /\ pc' = [pc EXCEPT ![self] = "Ret"]
              /\ UNCHANGED << ci, st, nd, sk, pi, fi, tasks, now, obs, script, 
-                             ntop, panicked, done, stack, fr, to, m, lg, sx, 
-                             jx, ch, lv, snap, ka, ca, gx, ex, nx, fx, bx, bc, 
-                             tx, ta, tc, ft, act, sj >>
+                             ntop, panicked, started, mon, done, stack, fr, to, 
+                             m, lg, sx, jx, ch, lv, snap, ka, ca, gx, ex, nx, 
+                             fx, bx, bc, tx, ta, tc, ft, act, sj, tk >>
 
 SH9(self) == /\ pc[self] = "SH9"
              /\ IF Len(nd[to[self].n].sinks) = 0
@@ -5641,15 +5804,15 @@ SH9(self) == /\ pc[self] = "SH9"
                         /\ UNCHANGED << obs, panicked, stack, fr, to, m, lg, 
                                         sx, jx, ch, lv, snap >>
              /\ UNCHANGED << ci, st, nd, sk, pi, fi, tasks, now, script, ntop, 
-                             done, ka, ca, gx, ex, nx, fx, bx, bc, tx, ta, tc, 
-                             ft, act, sj >>
+                             started, mon, done, ka, ca, gx, ex, nx, fx, bx, 
+                             bc, tx, ta, tc, ft, act, sj, tk >>
 
 SH10(self) == /\ pc[self] = "SH10"
               /\ pc' = [pc EXCEPT ![self] = "Ret"]
               /\ UNCHANGED << ci, st, nd, sk, pi, fi, tasks, now, obs, script, 
-                              ntop, panicked, done, stack, fr, to, m, lg, sx, 
-                              jx, ch, lv, snap, ka, ca, gx, ex, nx, fx, bx, bc, 
-                              tx, ta, tc, ft, act, sj >>
+                              ntop, panicked, started, mon, done, stack, fr, 
+                              to, m, lg, sx, jx, ch, lv, snap, ka, ca, gx, ex, 
+                              nx, fx, bx, bc, tx, ta, tc, ft, act, sj, tk >>
 
 IV1(self) == /\ pc[self] = "IV1"
              /\ IF ch[self] = "ok"
@@ -5698,15 +5861,15 @@ IV1(self) == /\ pc[self] = "IV1"
                         /\ snap' = [snap EXCEPT ![self] = <<>>]
                         /\ pc' = [pc EXCEPT ![self] = "DStart"]
              /\ UNCHANGED << ci, st, nd, sk, pi, fi, tasks, now, obs, script, 
-                             ntop, panicked, done, ka, ca, gx, ex, nx, fx, bx, 
-                             bc, tx, ta, tc, ft, act, sj >>
+                             ntop, panicked, started, mon, done, ka, ca, gx, 
+                             ex, nx, fx, bx, bc, tx, ta, tc, ft, act, sj, tk >>
 
 IV2(self) == /\ pc[self] = "IV2"
              /\ pc' = [pc EXCEPT ![self] = "Ret"]
              /\ UNCHANGED << ci, st, nd, sk, pi, fi, tasks, now, obs, script, 
-                             ntop, panicked, done, stack, fr, to, m, lg, sx, 
-                             jx, ch, lv, snap, ka, ca, gx, ex, nx, fx, bx, bc, 
-                             tx, ta, tc, ft, act, sj >>
+                             ntop, panicked, started, mon, done, stack, fr, to, 
+                             m, lg, sx, jx, ch, lv, snap, ka, ca, gx, ex, nx, 
+                             fx, bx, bc, tx, ta, tc, ft, act, sj, tk >>
 
 Ret(self) == /\ pc[self] = "Ret"
              /\ IF lg[self]
@@ -5725,16 +5888,16 @@ Ret(self) == /\ pc[self] = "Ret"
              /\ m' = [m EXCEPT ![self] = Head(stack[self]).m]
              /\ stack' = [stack EXCEPT ![self] = Tail(stack[self])]
              /\ UNCHANGED << ci, st, nd, sk, pi, fi, tasks, now, script, ntop, 
-                             panicked, done, ka, ca, gx, ex, nx, fx, bx, bc, 
-                             tx, ta, tc, ft, act, sj >>
+                             panicked, started, mon, done, ka, ca, gx, ex, nx, 
+                             fx, bx, bc, tx, ta, tc, ft, act, sj, tk >>
 
 Halt(self) == /\ pc[self] = "Halt"
               /\ FALSE
               /\ pc' = [pc EXCEPT ![self] = "Error"]
               /\ UNCHANGED << ci, st, nd, sk, pi, fi, tasks, now, obs, script, 
-                              ntop, panicked, done, stack, fr, to, m, lg, sx, 
-                              jx, ch, lv, snap, ka, ca, gx, ex, nx, fx, bx, bc, 
-                              tx, ta, tc, ft, act, sj >>
+                              ntop, panicked, started, mon, done, stack, fr, 
+                              to, m, lg, sx, jx, ch, lv, snap, ka, ca, gx, ex, 
+                              nx, fx, bx, bc, tx, ta, tc, ft, act, sj, tk >>
 
 Deliver(self) == DStart(self) \/ DDisp(self) \/ K1(self) \/ K2(self)
                     \/ K3(self) \/ P1(self) \/ P2(self) \/ P3(self)
@@ -5749,14 +5912,13 @@ Deliver(self) == DStart(self) \/ DDisp(self) \/ K1(self) \/ K2(self)
                     \/ SC2(self) \/ SC3(self) \/ SC4(self) \/ SC5(self)
                     \/ SC6(self) \/ SC7(self) \/ SC8(self) \/ TK1(self)
                     \/ TK2(self) \/ TK3(self) \/ TK4(self)
-                    \/ tk_taken_ld(self) \/ tk_taken_fa(self)
-                    \/ tk_data(self) \/ tk_end_ld(self) \/ tk_end_st(self)
-                    \/ tk_up_ld(self) \/ tk_up_term(self)
-                    \/ tk_sink_term(self) \/ TK5(self) \/ TK6(self)
-                    \/ TK7(self) \/ TK8(self) \/ TK9(self) \/ SK1(self)
-                    \/ SK2(self) \/ SK3(self) \/ SK4(self) \/ SK6(self)
-                    \/ SK5(self) \/ SK7(self) \/ SK8(self) \/ MG1(self)
-                    \/ MG2(self) \/ MG8(self) \/ MG9(self)
+                    \/ tk_taken_fu(self) \/ tk_data(self) \/ tk_max(self)
+                    \/ tk_end_ld(self) \/ tk_end_st(self) \/ tk_up_ld(self)
+                    \/ tk_up_term(self) \/ tk_sink_term(self) \/ TK5(self)
+                    \/ TK6(self) \/ TK7(self) \/ TK8(self) \/ TK9(self)
+                    \/ SK1(self) \/ SK2(self) \/ SK3(self) \/ SK4(self)
+                    \/ SK6(self) \/ SK5(self) \/ SK7(self) \/ SK8(self)
+                    \/ MG1(self) \/ MG2(self) \/ MG8(self) \/ MG9(self)
                     \/ mg_late_ld(self) \/ mg_late_ret(self)
                     \/ mg_tb_st(self) \/ mg_start_fa(self)
                     \/ mg_greet(self) \/ MG3(self) \/ mg_data(self)
@@ -5768,19 +5930,20 @@ Deliver(self) == DStart(self) \/ DDisp(self) \/ K1(self) \/ K2(self)
                     \/ CC4(self) \/ CC5(self) \/ CC6(self) \/ CB1(self)
                     \/ CB2(self) \/ cb_tb_st(self) \/ cb_start_fs(self)
                     \/ cb_greet(self) \/ CB3(self) \/ cb_vals_ld(self)
-                    \/ cb_ndata_fs(self) \/ cb_ndata_ld(self)
-                    \/ cb_rcu(self) \/ cb_emit_ld(self) \/ cb_data(self)
-                    \/ CB4(self) \/ cb_end_fs(self) \/ cb_term(self)
-                    \/ CB5(self) \/ CB6(self) \/ CB7(self) \/ FL1(self)
-                    \/ FL2(self) \/ FL3(self) \/ FL4(self) \/ FL5a(self)
-                    \/ FL5(self) \/ FL6(self) \/ FL7(self) \/ FL8(self)
-                    \/ FL9(self) \/ FL10(self) \/ FL11(self) \/ FL12(self)
-                    \/ FL13(self) \/ FL14(self) \/ FL16(self) \/ FL15(self)
-                    \/ FL17(self) \/ FL18(self) \/ FL19(self) \/ SH1(self)
-                    \/ SH2(self) \/ SH3(self) \/ SH4(self) \/ SH5(self)
-                    \/ SH6(self) \/ SH7(self) \/ SH8(self) \/ SH9(self)
-                    \/ SH10(self) \/ IV1(self) \/ IV2(self) \/ Ret(self)
-                    \/ Halt(self)
+                    \/ cb_rcu_ld(self) \/ cb_rcu_cas(self)
+                    \/ cb_ndata(self) \/ cb_ndata_fs(self)
+                    \/ cb_ndata_ld(self) \/ cb_emit(self)
+                    \/ cb_emit_ld(self) \/ cb_data(self) \/ CB4(self)
+                    \/ cb_end_fs(self) \/ cb_term(self) \/ CB5(self)
+                    \/ CB6(self) \/ CB7(self) \/ FL1(self) \/ FL2(self)
+                    \/ FL3(self) \/ FL4(self) \/ FL5a(self) \/ FL5(self)
+                    \/ FL6(self) \/ FL7(self) \/ FL8(self) \/ FL9(self)
+                    \/ FL10(self) \/ FL11(self) \/ FL12(self) \/ FL13(self)
+                    \/ FL14(self) \/ FL16(self) \/ FL15(self) \/ FL17(self)
+                    \/ FL18(self) \/ FL19(self) \/ SH1(self) \/ SH2(self)
+                    \/ SH3(self) \/ SH4(self) \/ SH5(self) \/ SH6(self)
+                    \/ SH7(self) \/ SH8(self) \/ SH9(self) \/ SH10(self)
+                    \/ IV1(self) \/ IV2(self) \/ Ret(self) \/ Halt(self)
 
 SA0(self) == /\ pc[self] = "SA0"
              /\ IF ca[self] = "pull"
@@ -5872,8 +6035,8 @@ SA0(self) == /\ pc[self] = "SA0"
                                                               lg, sx, jx, ch, 
                                                               lv, snap >>
              /\ UNCHANGED << ci, st, nd, pi, fi, tasks, now, obs, script, ntop, 
-                             panicked, done, ka, ca, gx, nx, fx, bx, bc, tx, 
-                             ta, tc, ft, act, sj >>
+                             panicked, started, mon, done, ka, ca, gx, nx, fx, 
+                             bx, bc, tx, ta, tc, ft, act, sj, tk >>
 
 SA1(self) == /\ pc[self] = "SA1"
              /\ pc' = [pc EXCEPT ![self] = Head(stack[self]).pc]
@@ -5881,9 +6044,9 @@ SA1(self) == /\ pc[self] = "SA1"
              /\ ca' = [ca EXCEPT ![self] = Head(stack[self]).ca]
              /\ stack' = [stack EXCEPT ![self] = Tail(stack[self])]
              /\ UNCHANGED << ci, st, nd, sk, pi, fi, tasks, now, obs, script, 
-                             ntop, panicked, done, fr, to, m, lg, sx, jx, ch, 
-                             lv, snap, gx, ex, nx, fx, bx, bc, tx, ta, tc, ft, 
-                             act, sj >>
+                             ntop, panicked, started, mon, done, fr, to, m, lg, 
+                             sx, jx, ch, lv, snap, gx, ex, nx, fx, bx, bc, tx, 
+                             ta, tc, ft, act, sj, tk >>
 
 SinkAct(self) == SA0(self) \/ SA1(self)
 
@@ -5912,17 +6075,17 @@ G0(self) == /\ pc[self] = "G0"
             /\ snap' = [snap EXCEPT ![self] = <<>>]
             /\ pc' = [pc EXCEPT ![self] = "DStart"]
             /\ UNCHANGED << ci, st, nd, sk, fi, tasks, now, obs, script, ntop, 
-                            panicked, done, ka, ca, gx, ex, nx, fx, bx, bc, tx, 
-                            ta, tc, ft, act, sj >>
+                            panicked, started, mon, done, ka, ca, gx, ex, nx, 
+                            fx, bx, bc, tx, ta, tc, ft, act, sj, tk >>
 
 G1(self) == /\ pc[self] = "G1"
             /\ pc' = [pc EXCEPT ![self] = Head(stack[self]).pc]
             /\ gx' = [gx EXCEPT ![self] = Head(stack[self]).gx]
             /\ stack' = [stack EXCEPT ![self] = Tail(stack[self])]
             /\ UNCHANGED << ci, st, nd, sk, pi, fi, tasks, now, obs, script, 
-                            ntop, panicked, done, fr, to, m, lg, sx, jx, ch, 
-                            lv, snap, ka, ca, ex, nx, fx, bx, bc, tx, ta, tc, 
-                            ft, act, sj >>
+                            ntop, panicked, started, mon, done, fr, to, m, lg, 
+                            sx, jx, ch, lv, snap, ka, ca, ex, nx, fx, bx, bc, 
+                            tx, ta, tc, ft, act, sj, tk >>
 
 Greet(self) == G0(self) \/ G1(self)
 
@@ -5953,17 +6116,17 @@ E0(self) == /\ pc[self] = "E0"
             /\ snap' = [snap EXCEPT ![self] = <<>>]
             /\ pc' = [pc EXCEPT ![self] = "DStart"]
             /\ UNCHANGED << ci, st, nd, sk, fi, tasks, now, obs, script, ntop, 
-                            panicked, done, ka, ca, gx, ex, nx, fx, bx, bc, tx, 
-                            ta, tc, ft, act, sj >>
+                            panicked, started, mon, done, ka, ca, gx, ex, nx, 
+                            fx, bx, bc, tx, ta, tc, ft, act, sj, tk >>
 
 E1(self) == /\ pc[self] = "E1"
             /\ pc' = [pc EXCEPT ![self] = Head(stack[self]).pc]
             /\ ex' = [ex EXCEPT ![self] = Head(stack[self]).ex]
             /\ stack' = [stack EXCEPT ![self] = Tail(stack[self])]
             /\ UNCHANGED << ci, st, nd, sk, pi, fi, tasks, now, obs, script, 
-                            ntop, panicked, done, fr, to, m, lg, sx, jx, ch, 
-                            lv, snap, ka, ca, gx, nx, fx, bx, bc, tx, ta, tc, 
-                            ft, act, sj >>
+                            ntop, panicked, started, mon, done, fr, to, m, lg, 
+                            sx, jx, ch, lv, snap, ka, ca, gx, nx, fx, bx, bc, 
+                            tx, ta, tc, ft, act, sj, tk >>
 
 Emit(self) == E0(self) \/ E1(self)
 
@@ -5992,17 +6155,17 @@ N0(self) == /\ pc[self] = "N0"
             /\ snap' = [snap EXCEPT ![self] = <<>>]
             /\ pc' = [pc EXCEPT ![self] = "DStart"]
             /\ UNCHANGED << ci, st, nd, sk, fi, tasks, now, obs, script, ntop, 
-                            panicked, done, ka, ca, gx, ex, nx, fx, bx, bc, tx, 
-                            ta, tc, ft, act, sj >>
+                            panicked, started, mon, done, ka, ca, gx, ex, nx, 
+                            fx, bx, bc, tx, ta, tc, ft, act, sj, tk >>
 
 N1(self) == /\ pc[self] = "N1"
             /\ pc' = [pc EXCEPT ![self] = Head(stack[self]).pc]
             /\ nx' = [nx EXCEPT ![self] = Head(stack[self]).nx]
             /\ stack' = [stack EXCEPT ![self] = Tail(stack[self])]
             /\ UNCHANGED << ci, st, nd, sk, pi, fi, tasks, now, obs, script, 
-                            ntop, panicked, done, fr, to, m, lg, sx, jx, ch, 
-                            lv, snap, ka, ca, gx, ex, fx, bx, bc, tx, ta, tc, 
-                            ft, act, sj >>
+                            ntop, panicked, started, mon, done, fr, to, m, lg, 
+                            sx, jx, ch, lv, snap, ka, ca, gx, ex, fx, bx, bc, 
+                            tx, ta, tc, ft, act, sj, tk >>
 
 EndP(self) == N0(self) \/ N1(self)
 
@@ -6031,17 +6194,17 @@ F0(self) == /\ pc[self] = "F0"
             /\ snap' = [snap EXCEPT ![self] = <<>>]
             /\ pc' = [pc EXCEPT ![self] = "DStart"]
             /\ UNCHANGED << ci, st, nd, sk, fi, tasks, now, obs, script, ntop, 
-                            panicked, done, ka, ca, gx, ex, nx, fx, bx, bc, tx, 
-                            ta, tc, ft, act, sj >>
+                            panicked, started, mon, done, ka, ca, gx, ex, nx, 
+                            fx, bx, bc, tx, ta, tc, ft, act, sj, tk >>
 
 F1(self) == /\ pc[self] = "F1"
             /\ pc' = [pc EXCEPT ![self] = Head(stack[self]).pc]
             /\ fx' = [fx EXCEPT ![self] = Head(stack[self]).fx]
             /\ stack' = [stack EXCEPT ![self] = Tail(stack[self])]
             /\ UNCHANGED << ci, st, nd, sk, pi, fi, tasks, now, obs, script, 
-                            ntop, panicked, done, fr, to, m, lg, sx, jx, ch, 
-                            lv, snap, ka, ca, gx, ex, nx, bx, bc, tx, ta, tc, 
-                            ft, act, sj >>
+                            ntop, panicked, started, mon, done, fr, to, m, lg, 
+                            sx, jx, ch, lv, snap, ka, ca, gx, ex, nx, bx, bc, 
+                            tx, ta, tc, ft, act, sj, tk >>
 
 FailP(self) == F0(self) \/ F1(self)
 
@@ -6054,9 +6217,9 @@ B0(self) == /\ pc[self] = "B0"
                   ELSE /\ pc' = [pc EXCEPT ![self] = "B4"]
                        /\ UNCHANGED << script, bc >>
             /\ UNCHANGED << ci, st, nd, sk, pi, fi, tasks, now, obs, ntop, 
-                            panicked, done, stack, fr, to, m, lg, sx, jx, ch, 
-                            lv, snap, ka, ca, gx, ex, nx, fx, bx, tx, ta, tc, 
-                            ft, act, sj >>
+                            panicked, started, mon, done, stack, fr, to, m, lg, 
+                            sx, jx, ch, lv, snap, ka, ca, gx, ex, nx, fx, bx, 
+                            tx, ta, tc, ft, act, sj, tk >>
 
 B1(self) == /\ pc[self] = "B1"
             /\ IF bc[self] = "data"
@@ -6091,8 +6254,9 @@ B1(self) == /\ pc[self] = "B1"
                                   /\ nx' = nx
                        /\ ex' = ex
             /\ UNCHANGED << ci, st, nd, sk, pi, fi, tasks, now, obs, script, 
-                            ntop, panicked, done, fr, to, m, lg, sx, jx, ch, 
-                            lv, snap, ka, ca, gx, tx, ta, tc, ft, act, sj >>
+                            ntop, panicked, started, mon, done, fr, to, m, lg, 
+                            sx, jx, ch, lv, snap, ka, ca, gx, tx, ta, tc, ft, 
+                            act, sj, tk >>
 
 B2(self) == /\ pc[self] = "B2"
             /\ pc' = [pc EXCEPT ![self] = Head(stack[self]).pc]
@@ -6100,9 +6264,9 @@ B2(self) == /\ pc[self] = "B2"
             /\ bx' = [bx EXCEPT ![self] = Head(stack[self]).bx]
             /\ stack' = [stack EXCEPT ![self] = Tail(stack[self])]
             /\ UNCHANGED << ci, st, nd, sk, pi, fi, tasks, now, obs, script, 
-                            ntop, panicked, done, fr, to, m, lg, sx, jx, ch, 
-                            lv, snap, ka, ca, gx, ex, nx, fx, tx, ta, tc, ft, 
-                            act, sj >>
+                            ntop, panicked, started, mon, done, fr, to, m, lg, 
+                            sx, jx, ch, lv, snap, ka, ca, gx, ex, nx, fx, tx, 
+                            ta, tc, ft, act, sj, tk >>
 
 B3(self) == /\ pc[self] = "B3"
             /\ pc' = [pc EXCEPT ![self] = Head(stack[self]).pc]
@@ -6110,9 +6274,9 @@ B3(self) == /\ pc[self] = "B3"
             /\ bx' = [bx EXCEPT ![self] = Head(stack[self]).bx]
             /\ stack' = [stack EXCEPT ![self] = Tail(stack[self])]
             /\ UNCHANGED << ci, st, nd, sk, pi, fi, tasks, now, obs, script, 
-                            ntop, panicked, done, fr, to, m, lg, sx, jx, ch, 
-                            lv, snap, ka, ca, gx, ex, nx, fx, tx, ta, tc, ft, 
-                            act, sj >>
+                            ntop, panicked, started, mon, done, fr, to, m, lg, 
+                            sx, jx, ch, lv, snap, ka, ca, gx, ex, nx, fx, tx, 
+                            ta, tc, ft, act, sj, tk >>
 
 B4(self) == /\ pc[self] = "B4"
             /\ pc' = [pc EXCEPT ![self] = Head(stack[self]).pc]
@@ -6120,9 +6284,9 @@ B4(self) == /\ pc[self] = "B4"
             /\ bx' = [bx EXCEPT ![self] = Head(stack[self]).bx]
             /\ stack' = [stack EXCEPT ![self] = Tail(stack[self])]
             /\ UNCHANGED << ci, st, nd, sk, pi, fi, tasks, now, obs, script, 
-                            ntop, panicked, done, fr, to, m, lg, sx, jx, ch, 
-                            lv, snap, ka, ca, gx, ex, nx, fx, tx, ta, tc, ft, 
-                            act, sj >>
+                            ntop, panicked, started, mon, done, fr, to, m, lg, 
+                            sx, jx, ch, lv, snap, ka, ca, gx, ex, nx, fx, tx, 
+                            ta, tc, ft, act, sj, tk >>
 
 Burst(self) == B0(self) \/ B1(self) \/ B2(self) \/ B3(self) \/ B4(self)
 
@@ -6178,8 +6342,9 @@ PT0(self) == /\ pc[self] = "PT0"
                                    /\ ex' = ex
                         /\ gx' = gx
              /\ UNCHANGED << ci, st, nd, sk, fi, tasks, now, obs, ntop, 
-                             panicked, done, fr, to, m, lg, sx, jx, ch, lv, 
-                             snap, ka, ca, bx, bc, tx, ta, ft, act, sj >>
+                             panicked, started, mon, done, fr, to, m, lg, sx, 
+                             jx, ch, lv, snap, ka, ca, bx, bc, tx, ta, ft, act, 
+                             sj, tk >>
 
 PT1(self) == /\ pc[self] = "PT1"
              /\ /\ bx' = [bx EXCEPT ![self] = tx[self]]
@@ -6191,9 +6356,9 @@ PT1(self) == /\ pc[self] = "PT1"
              /\ bc' = [bc EXCEPT ![self] = ""]
              /\ pc' = [pc EXCEPT ![self] = "B0"]
              /\ UNCHANGED << ci, st, nd, sk, pi, fi, tasks, now, obs, script, 
-                             ntop, panicked, done, fr, to, m, lg, sx, jx, ch, 
-                             lv, snap, ka, ca, gx, ex, nx, fx, tx, ta, tc, ft, 
-                             act, sj >>
+                             ntop, panicked, started, mon, done, fr, to, m, lg, 
+                             sx, jx, ch, lv, snap, ka, ca, gx, ex, nx, fx, tx, 
+                             ta, tc, ft, act, sj, tk >>
 
 PT2(self) == /\ pc[self] = "PT2"
              /\ IF tc[self] = "data"
@@ -6221,9 +6386,9 @@ PT2(self) == /\ pc[self] = "PT2"
                                    /\ nx' = nx
                         /\ ex' = ex
              /\ UNCHANGED << ci, st, nd, sk, pi, fi, tasks, now, obs, script, 
-                             ntop, panicked, done, fr, to, m, lg, sx, jx, ch, 
-                             lv, snap, ka, ca, gx, bx, bc, tx, ta, tc, ft, act, 
-                             sj >>
+                             ntop, panicked, started, mon, done, fr, to, m, lg, 
+                             sx, jx, ch, lv, snap, ka, ca, gx, bx, bc, tx, ta, 
+                             tc, ft, act, sj, tk >>
 
 PT3(self) == /\ pc[self] = "PT3"
              /\ pc' = [pc EXCEPT ![self] = Head(stack[self]).pc]
@@ -6232,9 +6397,9 @@ PT3(self) == /\ pc[self] = "PT3"
              /\ ta' = [ta EXCEPT ![self] = Head(stack[self]).ta]
              /\ stack' = [stack EXCEPT ![self] = Tail(stack[self])]
              /\ UNCHANGED << ci, st, nd, sk, pi, fi, tasks, now, obs, script, 
-                             ntop, panicked, done, fr, to, m, lg, sx, jx, ch, 
-                             lv, snap, ka, ca, gx, ex, nx, fx, bx, bc, ft, act, 
-                             sj >>
+                             ntop, panicked, started, mon, done, fr, to, m, lg, 
+                             sx, jx, ch, lv, snap, ka, ca, gx, ex, nx, fx, bx, 
+                             bc, ft, act, sj, tk >>
 
 PupTop(self) == PT0(self) \/ PT1(self) \/ PT2(self) \/ PT3(self)
 
@@ -6243,9 +6408,9 @@ FT0(self) == /\ pc[self] = "FT0"
              /\ tasks' = [tasks EXCEPT ![ft[self]].armed = FALSE]
              /\ pc' = [pc EXCEPT ![self] = "FT1"]
              /\ UNCHANGED << ci, st, nd, sk, pi, fi, obs, script, ntop, 
-                             panicked, done, stack, fr, to, m, lg, sx, jx, ch, 
-                             lv, snap, ka, ca, gx, ex, nx, fx, bx, bc, tx, ta, 
-                             tc, ft, act, sj >>
+                             panicked, started, mon, done, stack, fr, to, m, 
+                             lg, sx, jx, ch, lv, snap, ka, ca, gx, ex, nx, fx, 
+                             bx, bc, tx, ta, tc, ft, act, sj, tk >>
 
 FT1(self) == /\ pc[self] = "FT1"
              /\ IF st[tasks[ft[self]].node][tasks[ft[self]].sub].cleared
@@ -6281,8 +6446,8 @@ FT1(self) == /\ pc[self] = "FT1"
                         /\ pc' = [pc EXCEPT ![self] = "DStart"]
                         /\ UNCHANGED << tasks, obs, ft >>
              /\ UNCHANGED << ci, nd, sk, pi, fi, now, script, ntop, panicked, 
-                             done, ka, ca, gx, ex, nx, fx, bx, bc, tx, ta, tc, 
-                             act, sj >>
+                             started, mon, done, ka, ca, gx, ex, nx, fx, bx, 
+                             bc, tx, ta, tc, act, sj, tk >>
 
 FT2(self) == /\ pc[self] = "FT2"
              /\ obs' = LogO(obs, Ev("sleep", ThOf(self), "", TName(ft[self]), "", Node(tasks[ft[self]].node).period))
@@ -6291,23 +6456,24 @@ FT2(self) == /\ pc[self] = "FT2"
              /\ ft' = [ft EXCEPT ![self] = Head(stack[self]).ft]
              /\ stack' = [stack EXCEPT ![self] = Tail(stack[self])]
              /\ UNCHANGED << ci, st, nd, sk, pi, fi, now, script, ntop, 
-                             panicked, done, fr, to, m, lg, sx, jx, ch, lv, 
-                             snap, ka, ca, gx, ex, nx, fx, bx, bc, tx, ta, tc, 
-                             act, sj >>
+                             panicked, started, mon, done, fr, to, m, lg, sx, 
+                             jx, ch, lv, snap, ka, ca, gx, ex, nx, fx, bx, bc, 
+                             tx, ta, tc, act, sj, tk >>
 
 Fire(self) == FT0(self) \/ FT1(self) \/ FT2(self)
 
 M0 == /\ pc[0] = "M0"
       /\ IF ntop < MaxTop /\ ~panicked
-            THEN /\ \E a \in {<<"", "stop">>} \cup EnabledTop:
+            THEN /\ \E a \in (IF IsThr THEN {} ELSE {<<"", "stop">>}) \cup EnabledTop:
                       /\ script' = LogS(script, <<"top", a[1], a[2]>>)
                       /\ act' = a
                  /\ pc' = [pc EXCEPT ![0] = "M1"]
             ELSE /\ pc' = [pc EXCEPT ![0] = "MDone"]
                  /\ UNCHANGED << script, act >>
       /\ UNCHANGED << ci, st, nd, sk, pi, fi, tasks, now, obs, ntop, panicked, 
-                      done, stack, fr, to, m, lg, sx, jx, ch, lv, snap, ka, ca, 
-                      gx, ex, nx, fx, bx, bc, tx, ta, tc, ft, sj >>
+                      started, mon, done, stack, fr, to, m, lg, sx, jx, ch, lv, 
+                      snap, ka, ca, gx, ex, nx, fx, bx, bc, tx, ta, tc, ft, sj, 
+                      tk >>
 
 M1 == /\ pc[0] = "M1"
       /\ IF act[2] = "stop"
@@ -6317,8 +6483,9 @@ M1 == /\ pc[0] = "M1"
                  /\ obs' = LogO(obs, Ev("top", 0, "", act[1], act[2], 0))
                  /\ pc' = [pc EXCEPT ![0] = "M2"]
       /\ UNCHANGED << ci, st, nd, sk, pi, fi, tasks, now, script, panicked, 
-                      done, stack, fr, to, m, lg, sx, jx, ch, lv, snap, ka, ca, 
-                      gx, ex, nx, fx, bx, bc, tx, ta, tc, ft, act, sj >>
+                      started, mon, done, stack, fr, to, m, lg, sx, jx, ch, lv, 
+                      snap, ka, ca, gx, ex, nx, fx, bx, bc, tx, ta, tc, ft, 
+                      act, sj, tk >>
 
 M2 == /\ pc[0] = "M2"
       /\ IF act[2] = "attach"
@@ -6401,15 +6568,16 @@ M2 == /\ pc[0] = "M2"
                             /\ ft' = ft
                  /\ UNCHANGED << sk, fr, to, m, lg, sx, jx, ch, lv, snap >>
       /\ UNCHANGED << ci, st, nd, pi, fi, tasks, now, obs, script, ntop, 
-                      panicked, done, gx, ex, nx, fx, bx, bc, act, sj >>
+                      panicked, started, mon, done, gx, ex, nx, fx, bx, bc, 
+                      act, sj, tk >>
 
 M3 == /\ pc[0] = "M3"
       /\ sj' = 1
       /\ pc' = [pc EXCEPT ![0] = "M4"]
       /\ UNCHANGED << ci, st, nd, sk, pi, fi, tasks, now, obs, script, ntop, 
-                      panicked, done, stack, fr, to, m, lg, sx, jx, ch, lv, 
-                      snap, ka, ca, gx, ex, nx, fx, bx, bc, tx, ta, tc, ft, 
-                      act >>
+                      panicked, started, mon, done, stack, fr, to, m, lg, sx, 
+                      jx, ch, lv, snap, ka, ca, gx, ex, nx, fx, bx, bc, tx, ta, 
+                      tc, ft, act, tk >>
 
 M4 == /\ pc[0] = "M4"
       /\ IF sj <= Len(tasks)
@@ -6424,18 +6592,106 @@ M4 == /\ pc[0] = "M4"
             ELSE /\ pc' = [pc EXCEPT ![0] = "M0"]
                  /\ UNCHANGED << tasks, obs, sj >>
       /\ UNCHANGED << ci, st, nd, sk, pi, fi, now, script, ntop, panicked, 
-                      done, stack, fr, to, m, lg, sx, jx, ch, lv, snap, ka, ca, 
-                      gx, ex, nx, fx, bx, bc, tx, ta, tc, ft, act >>
+                      started, mon, done, stack, fr, to, m, lg, sx, jx, ch, lv, 
+                      snap, ka, ca, gx, ex, nx, fx, bx, bc, tx, ta, tc, ft, 
+                      act, tk >>
 
 MDone == /\ pc[0] = "MDone"
-         /\ done' = TRUE
-         /\ pc' = [pc EXCEPT ![0] = "Done"]
-         /\ UNCHANGED << ci, st, nd, sk, pi, fi, tasks, now, obs, script, ntop, 
-                         panicked, stack, fr, to, m, lg, sx, jx, ch, lv, snap, 
-                         ka, ca, gx, ex, nx, fx, bx, bc, tx, ta, tc, ft, act, 
-                         sj >>
+         /\ IF IsThr /\ ~panicked
+               THEN /\ obs' = LogO(obs, Ev("top", 0, "", "", "threads", 0))
+                    /\ started' = TRUE
+                    /\ pc' = [pc EXCEPT ![0] = "MWait"]
+               ELSE /\ pc' = [pc EXCEPT ![0] = "MFin"]
+                    /\ UNCHANGED << obs, started >>
+         /\ UNCHANGED << ci, st, nd, sk, pi, fi, tasks, now, script, ntop, 
+                         panicked, mon, done, stack, fr, to, m, lg, sx, jx, ch, 
+                         lv, snap, ka, ca, gx, ex, nx, fx, bx, bc, tx, ta, tc, 
+                         ft, act, sj, tk >>
 
-Main == M0 \/ M1 \/ M2 \/ M3 \/ M4 \/ MDone
+MWait == /\ pc[0] = "MWait"
+         /\ \A t \in 1..Len(CFG.thr) : pc[t] = "Done"
+         /\ pc' = [pc EXCEPT ![0] = "MFin"]
+         /\ UNCHANGED << ci, st, nd, sk, pi, fi, tasks, now, obs, script, ntop, 
+                         panicked, started, mon, done, stack, fr, to, m, lg, 
+                         sx, jx, ch, lv, snap, ka, ca, gx, ex, nx, fx, bx, bc, 
+                         tx, ta, tc, ft, act, sj, tk >>
+
+MFin == /\ pc[0] = "MFin"
+        /\ done' = TRUE
+        /\ pc' = [pc EXCEPT ![0] = "Done"]
+        /\ UNCHANGED << ci, st, nd, sk, pi, fi, tasks, now, obs, script, ntop, 
+                        panicked, started, mon, stack, fr, to, m, lg, sx, jx, 
+                        ch, lv, snap, ka, ca, gx, ex, nx, fx, bx, bc, tx, ta, 
+                        tc, ft, act, sj, tk >>
+
+Main == M0 \/ M1 \/ M2 \/ M3 \/ M4 \/ MDone \/ MWait \/ MFin
+
+th_start(self) == /\ pc[self] = "th_start"
+                  /\ started /\ self <= Len(CFG.thr)
+                  /\ pc' = [pc EXCEPT ![self] = "TH1"]
+                  /\ UNCHANGED << ci, st, nd, sk, pi, fi, tasks, now, obs, 
+                                  script, ntop, panicked, started, mon, done, 
+                                  stack, fr, to, m, lg, sx, jx, ch, lv, snap, 
+                                  ka, ca, gx, ex, nx, fx, bx, bc, tx, ta, tc, 
+                                  ft, act, sj, tk >>
+
+TH1(self) == /\ pc[self] = "TH1"
+             /\ IF tk[self] < CFG.thr[self].data /\ PupLive(InstOfPid(CFG.thr[self].pid))
+                   THEN /\ /\ ex' = [ex EXCEPT ![self] = InstOfPid(CFG.thr[self].pid)]
+                           /\ stack' = [stack EXCEPT ![self] = << [ procedure |->  "Emit",
+                                                                    pc        |->  "TH2",
+                                                                    ex        |->  ex[self] ] >>
+                                                                \o stack[self]]
+                        /\ pc' = [pc EXCEPT ![self] = "E0"]
+                   ELSE /\ pc' = [pc EXCEPT ![self] = "TH3"]
+                        /\ UNCHANGED << stack, ex >>
+             /\ UNCHANGED << ci, st, nd, sk, pi, fi, tasks, now, obs, script, 
+                             ntop, panicked, started, mon, done, fr, to, m, lg, 
+                             sx, jx, ch, lv, snap, ka, ca, gx, nx, fx, bx, bc, 
+                             tx, ta, tc, ft, act, sj, tk >>
+
+TH2(self) == /\ pc[self] = "TH2"
+             /\ tk' = [tk EXCEPT ![self] = tk[self] + 1]
+             /\ pc' = [pc EXCEPT ![self] = "TH1"]
+             /\ UNCHANGED << ci, st, nd, sk, pi, fi, tasks, now, obs, script, 
+                             ntop, panicked, started, mon, done, stack, fr, to, 
+                             m, lg, sx, jx, ch, lv, snap, ka, ca, gx, ex, nx, 
+                             fx, bx, bc, tx, ta, tc, ft, act, sj >>
+
+TH3(self) == /\ pc[self] = "TH3"
+             /\ IF CFG.thr[self].end # "none" /\ PupLive(InstOfPid(CFG.thr[self].pid))
+                   THEN /\ IF CFG.thr[self].end = "E"
+                              THEN /\ /\ fx' = [fx EXCEPT ![self] = InstOfPid(CFG.thr[self].pid)]
+                                      /\ stack' = [stack EXCEPT ![self] = << [ procedure |->  "FailP",
+                                                                               pc        |->  "TH4",
+                                                                               fx        |->  fx[self] ] >>
+                                                                           \o stack[self]]
+                                   /\ pc' = [pc EXCEPT ![self] = "F0"]
+                                   /\ nx' = nx
+                              ELSE /\ /\ nx' = [nx EXCEPT ![self] = InstOfPid(CFG.thr[self].pid)]
+                                      /\ stack' = [stack EXCEPT ![self] = << [ procedure |->  "EndP",
+                                                                               pc        |->  "TH4",
+                                                                               nx        |->  nx[self] ] >>
+                                                                           \o stack[self]]
+                                   /\ pc' = [pc EXCEPT ![self] = "N0"]
+                                   /\ fx' = fx
+                   ELSE /\ pc' = [pc EXCEPT ![self] = "TH4"]
+                        /\ UNCHANGED << stack, nx, fx >>
+             /\ UNCHANGED << ci, st, nd, sk, pi, fi, tasks, now, obs, script, 
+                             ntop, panicked, started, mon, done, fr, to, m, lg, 
+                             sx, jx, ch, lv, snap, ka, ca, gx, ex, bx, bc, tx, 
+                             ta, tc, ft, act, sj, tk >>
+
+TH4(self) == /\ pc[self] = "TH4"
+             /\ TRUE
+             /\ pc' = [pc EXCEPT ![self] = "Done"]
+             /\ UNCHANGED << ci, st, nd, sk, pi, fi, tasks, now, obs, script, 
+                             ntop, panicked, started, mon, done, stack, fr, to, 
+                             m, lg, sx, jx, ch, lv, snap, ka, ca, gx, ex, nx, 
+                             fx, bx, bc, tx, ta, tc, ft, act, sj, tk >>
+
+Thr(self) == th_start(self) \/ TH1(self) \/ TH2(self) \/ TH3(self)
+                \/ TH4(self)
 
 (* Allow infinite stuttering to prevent deadlock on termination. *)
 Terminating == /\ \A self \in ProcSet: pc[self] = "Done"
@@ -6446,6 +6702,7 @@ Next == Main
                                      \/ Greet(self) \/ Emit(self) \/ EndP(self)
                                      \/ FailP(self) \/ Burst(self) \/ PupTop(self)
                                      \/ Fire(self))
+           \/ (\E self \in 1..NThr: Thr(self))
            \/ Terminating
 
 Spec == Init /\ [][Next]_vars
